@@ -2,7 +2,14 @@
 
    Part A (pure): a pattern described as a list of pieces `pd` (a text piece at a line start or not, with its own
    indentation, its body without line feed, and whether it ends the line; a placeable) that satisfies the conditions
-   `pds_ok` (what the pattern loop guarantees) has a skeleton that satisfies the line rules. *)
+   `pds_ok` (what the pattern loop guarantees) has a skeleton that satisfies the line rules.
+
+   Part B: the pattern loop of the parser, on a source in which every CR is followed by LF (no_lone_cr bs; LF and CR LF
+   line ends, mixed at will), produces such a description, and finish_pattern keeps it.  At a CR LF line end the parser
+   ends the text in front of the CR, leaves the CR out and reads the LF in the next round as a text element of its own
+   (piece PdEol); the invariant `inv` has the flag `pend` for the state in between.  A lone CR is not covered: it is a
+   text character (Render.v leaves it out of the grammar).  parse_lines_crlf is the result; parse_lines is the special
+   case of a source without any CR. *)
 From FluentV Require Import Base.Bytes Base.Outcome Base.Utf8 Syntax.Ast Syntax.ParserModel Syntax.Render Syntax.TreeNorm.
 From FluentV Require Import Syntax.ParseLemmas Syntax.RoundTrip Syntax.RoundTripML.
 From Coq Require Import Lia List.
@@ -38,12 +45,14 @@ Proof. intros Hc. unfold line_start_ok. rewrite (ls_sp_cons k c w Hc), skipn_sp_
 (* ---- pieces ---- *)
 Inductive pd :=
 | PdText (ls : bool) (own : nat) (body : bytes) (lf : bool)
-| PdPlace (ls : bool).
+| PdPlace (ls : bool)
+| PdEol.                (* the line feed of a CR LF line end: an element of its own after the text of the line *)
 
 Definition pd_bytes (d : pd) : bytes :=
   match d with
   | PdText _ own body lf => sp own ++ body ++ (if lf then [10%N] else [])
   | PdPlace _ => [123%N]
+  | PdEol => [10%N]
   end.
 Definition sk_of (ds : list pd) : bytes := concat (map pd_bytes ds).
 
@@ -61,9 +70,10 @@ Fixpoint pds_ok (ls : bool) (ds : list pd) : Prop :=
          | [] => (lf = true /\ own = 0) \/ lf = false
          end
        else own = 0 /\ (body = [] -> lf = true)) /\
-      (lf = false -> match r with [] => True | PdPlace _ :: _ => True | _ => False end) /\
+      (lf = false -> match r with [] => True | PdPlace _ :: _ => True | PdEol :: _ => body <> [] | _ => False end) /\
       pds_ok lf r
   | PdPlace l :: r => l = ls /\ pds_ok false r
+  | PdEol :: r => ls = false /\ pds_ok true r
   end.
 
 (* the lines of the skeleton, from the pieces *)
@@ -72,6 +82,7 @@ Fixpoint plines (cur : bytes) (ds : list pd) : list bytes :=
   | [] => [cur]
   | PdText _ own body lf :: r => if lf then (cur ++ sp own ++ body) :: plines [] r else plines (cur ++ sp own ++ body) r
   | PdPlace _ :: r => plines (cur ++ [123%N]) r
+  | PdEol :: r => cur :: plines [] r
   end.
 
 Lemma no_lf_app a b : no_lf a -> no_lf b -> no_lf (a ++ b).
@@ -83,7 +94,7 @@ Lemma plines_lines ds : forall ls cur, pds_ok ls ds -> no_lf cur -> lines_of (cu
 Proof.
   induction ds as [|d r IH]; intros ls cur Hok Hcur.
   - unfold sk_of. cbn [map concat plines]. rewrite app_nil_r. apply lines_of_no_lf, Hcur.
-  - destruct d as [l own body lf | l]; cbn [pds_ok] in Hok.
+  - destruct d as [l own body lf | l |]; cbn [pds_ok] in Hok.
     + destruct Hok as (_ & Hb & _ & _ & Hr). unfold sk_of. cbn [map concat pd_bytes plines]. fold (sk_of r).
       assert (Hline : no_lf (cur ++ sp own ++ body)) by (apply no_lf_app; [exact Hcur | apply no_lf_app; [apply no_lf_sp | exact Hb]]).
       destruct lf.
@@ -95,6 +106,8 @@ Proof.
         apply (IH false _ Hr Hline).
     + destruct Hok as [_ Hr]. unfold sk_of. cbn [map concat pd_bytes plines]. fold (sk_of r).
       rewrite app_assoc. apply (IH false _ Hr). apply no_lf_app; [exact Hcur | reflexivity].
+    + destruct Hok as [_ Hr]. unfold sk_of. cbn [map concat pd_bytes plines app]. fold (sk_of r).
+      rewrite (lines_of_lf _ _ Hcur). f_equal. apply (IH true [] Hr eq_refl).
 Qed.
 
 (* ---- a line that started well: sp k ++ c :: w with a good first byte c; it stays so when it grows ---- *)
@@ -120,6 +133,7 @@ Definition last_ok (ds : list pd) : Prop :=
   match last ds (PdPlace false) with
   | PdText _ _ body lf => lf = false /\ body <> [] /\ N.eqb (last body 0%N) 32 = false
   | PdPlace _ => True
+  | PdEol => False
   end.
 
 Lemma last_ok_tl d r : r <> [] -> last_ok (d :: r) -> last_ok r.
@@ -127,11 +141,12 @@ Proof. destruct r; [congruence|]. intros _ H. exact H. Qed.
 
 (* an indentation piece is not the last piece: a placeable follows it *)
 Lemma indent_next l own r : pds_ok false r -> last_ok (PdText l own [] false :: r) ->
-  (match r with [] => True | PdPlace _ :: _ => True | _ => False end) -> exists r', r = PdPlace false :: r'.
+  (match r with [] => True | PdPlace _ :: _ => True | PdEol :: _ => @nil N <> [] | _ => False end) -> exists r', r = PdPlace false :: r'.
 Proof.
-  intros Hr Hl Hn. destruct r as [|[l2 o2 b2 f2 | l2] r']; [|destruct Hn|].
+  intros Hr Hl Hn. destruct r as [|[l2 o2 b2 f2 | l2 |] r']; [|destruct Hn| |].
   - unfold last_ok in Hl. cbn [last] in Hl. destruct Hl as (_ & H & _). congruence.
   - cbn [pds_ok] in Hr. destruct Hr as [-> _]. eauto.
+  - congruence.
 Qed.
 
 (* the state of the walk: at a line start with nothing on the line yet, inside a line that started well, or after
@@ -155,7 +170,7 @@ Proof.
     destruct Hcur as [[H _] | [[_ H] | (_ & _ & l' & r' & H)]]; [discriminate H | | discriminate H].
     rewrite (gp_pline cur H). reflexivity.
   - assert (Hl' : r <> [] -> last_ok r) by (intros Hr0; apply (last_ok_tl d r Hr0 (Hlast ltac:(discriminate)))).
-    destruct d as [l own body lf | l]; cbn [pds_ok] in Hok; cbn [plines].
+    destruct d as [l own body lf | l |]; cbn [pds_ok] in Hok; cbn [plines].
     + destruct Hok as (_ & Hb & Hcase & Hnext & Hr).
       destruct Hcur as [[-> ->] | [[-> Hgp] | (_ & _ & l' & r' & H)]]; [| |discriminate H].
       * (* at a line start *)
@@ -181,6 +196,10 @@ Proof.
       * exists 0, 123%N, []. split; [reflexivity | repeat split; reflexivity].
       * apply gp_app, Hgp.
       * apply blank_brace_gp, Hbl.
+    + (* the line feed of a CR LF line end closes the line *)
+      destruct Hok as [-> Hr]. destruct Hcur as [[H _] | [[_ Hgp] | (_ & _ & l' & r' & H)]]; [discriminate H | | discriminate H].
+      cbn [forallb]. rewrite (gp_pline cur Hgp). cbn [andb].
+      destruct r as [|d2 r2]; [reflexivity|]. apply (IH true [] Hr); [left; auto | discriminate | exact Hl'].
 Qed.
 
 (* the first line of an inline value is not bound by the rules of the later lines *)
@@ -188,10 +207,11 @@ Lemma plines_tl_ok ds : forall cur, pds_ok false ds -> (ds <> [] -> last_ok ds) 
 Proof.
   induction ds as [|d r IH]; intros cur Hok Hlast; [reflexivity|].
   assert (Hl' : r <> [] -> last_ok r) by (intros Hr0; apply (last_ok_tl d r Hr0 (Hlast ltac:(discriminate)))).
-  destruct d as [l own body lf | l]; cbn [pds_ok] in Hok; cbn [plines].
+  destruct d as [l own body lf | l |]; cbn [pds_ok] in Hok; cbn [plines].
   - destruct Hok as (_ & _ & _ & _ & Hr). destruct lf; [|apply (IH _ Hr Hl')]. cbn [tl].
     destruct r as [|d2 r2]; [reflexivity|]. apply (plines_ok _ true [] Hr); [left; auto | discriminate | exact Hl'].
   - destruct Hok as [_ Hr]. apply (IH _ Hr Hl').
+  - destruct Hok as [_ Hr]. cbn [tl]. destruct r as [|d2 r2]; [reflexivity|]. apply (plines_ok _ true [] Hr); [left; auto | discriminate | exact Hl'].
 Qed.
 
 (* ---- indentation ---- *)
@@ -220,7 +240,7 @@ Proof.
     destruct Hcur as [[-> ->] | [[-> H] | (_ & _ & l' & r' & H)]]; [reflexivity | | discriminate H].
     rewrite (nb_gp cur [] H), (gp_ls_brace cur H). reflexivity.
   - assert (Hl' : r <> [] -> last_ok r) by (intros Hr0; apply (last_ok_tl d r Hr0 (Hlast ltac:(discriminate)))).
-    destruct d as [l own body lf | l]; cbn [pds_ok] in Hok; cbn [plines].
+    destruct d as [l own body lf | l |]; cbn [pds_ok] in Hok; cbn [plines].
     + destruct Hok as (El & Hb & Hcase & Hnext & Hr). subst l.
       destruct Hcur as [[-> ->] | [[-> Hgp] | (_ & _ & l' & r' & H)]]; [| |discriminate H].
       * cbn [app]. destruct body as [|c body'].
@@ -249,29 +269,33 @@ Proof.
         - apply blank_brace_gp, Hbl. }
       rewrite (IH false _ Hr); [|right; left; auto | exact Hl']. rewrite (gp_ls_brace _ Hg).
       destruct Hcur as [[-> ->] | [[-> Hgp] | (-> & Hbl & _)]]; cbn [counted app]; reflexivity.
+    + destruct Hok as [-> Hr]. destruct Hcur as [[H _] | [[_ Hgp] | (_ & _ & l' & r' & H)]]; [discriminate H | | discriminate H].
+      rewrite (nb_gp cur _ Hgp), (gp_ls_brace cur Hgp). cbn [counted app]. f_equal. apply (IH true [] Hr); [left; auto | exact Hl'].
 Qed.
 
 Lemma counted_tl ds : forall cur, pds_ok false ds -> (ds <> [] -> last_ok ds) -> map leading_spaces (nb (tl (plines cur ds))) = counted ds.
 Proof.
   induction ds as [|d r IH]; intros cur Hok Hlast; [reflexivity|].
   assert (Hl' : r <> [] -> last_ok r) by (intros Hr0; apply (last_ok_tl d r Hr0 (Hlast ltac:(discriminate)))).
-  destruct d as [l own body lf | l]; cbn [pds_ok] in Hok; cbn [plines].
+  destruct d as [l own body lf | l |]; cbn [pds_ok] in Hok; cbn [plines].
   - destruct Hok as (-> & _ & _ & _ & Hr). cbn [counted]. destruct lf; [|apply (IH _ Hr Hl')]. cbn [tl].
     rewrite (counted_lines r true [] Hr); [reflexivity | left; auto | exact Hl'].
   - destruct Hok as [-> Hr]. cbn [counted]. apply (IH _ Hr Hl').
+  - destruct Hok as [_ Hr]. cbn [counted tl]. rewrite (counted_lines r true [] Hr); [reflexivity | left; auto | exact Hl'].
 Qed.
 
 (* ---- the first and the last line ---- *)
 Lemma plines_ne cur ds : plines cur ds <> [].
-Proof. revert cur. induction ds as [|d r IH]; intros cur; [discriminate|]. destruct d as [l own body [|] | l]; cbn [plines]; [discriminate | apply IH | apply IH]. Qed.
+Proof. revert cur. induction ds as [|d r IH]; intros cur; [discriminate|]. destruct d as [l own body [|] | l |]; cbn [plines]; [discriminate | apply IH | apply IH | discriminate]. Qed.
 
 Lemma hd_prefix ds : forall cur, exists X, hd [] (plines cur ds) = cur ++ X.
 Proof.
   induction ds as [|d r IH]; intros cur; [exists []; cbn; rewrite app_nil_r; reflexivity|].
-  destruct d as [l own body [|] | l]; cbn [plines hd].
+  destruct d as [l own body [|] | l |]; cbn [plines hd].
   - exists (sp own ++ body). reflexivity.
   - destruct (IH (cur ++ sp own ++ body)) as [X E]. exists ((sp own ++ body) ++ X). rewrite E, <- app_assoc. reflexivity.
   - destruct (IH (cur ++ [123%N])) as [X E]. exists ([123%N] ++ X). rewrite E, <- app_assoc. reflexivity.
+  - exists []. rewrite app_nil_r. reflexivity.
 Qed.
 
 Lemma hd_gp ds cur : gp cur -> gp (hd [] (plines cur ds)).
@@ -281,6 +305,7 @@ Definition first_ok (block : bool) (ds : list pd) : Prop :=
   match ds with
   | PdText _ _ (c :: _) _ :: _ => N.eqb c 32 = false /\ N.eqb c 10 = false
   | PdText _ _ [] lf :: _ => block = true /\ lf = false
+  | PdEol :: _ => False
   | _ => True
   end.
 
@@ -289,17 +314,18 @@ Lemma last_line ds : forall cur, ds <> [] -> last_ok ds ->
 Proof.
   induction ds as [|d r IH]; intros cur Hne Hl; [congruence|].
   destruct r as [|d2 r2].
-  - unfold last_ok in Hl. cbn [last] in Hl. destruct d as [l own body lf | l]; cbn [plines].
+  - unfold last_ok in Hl. cbn [last] in Hl. destruct d as [l own body lf | l |]; cbn [plines]; [| |destruct Hl].
     + destruct Hl as (-> & Hb & Hlast). cbn [last]. exists (cur ++ sp own ++ removelast body), (last body 0%N). split; [|exact Hlast].
       rewrite <- !app_assoc. f_equal. f_equal. apply app_removelast_last, Hb.
     + cbn [last]. exists cur, 123%N. split; reflexivity.
   - assert (Hl' : last_ok (d2 :: r2)) by exact Hl.
     assert (Hlast : forall x l, l <> [] -> last (x :: l) ([] : bytes) = last l []) by (intros x [|y l] H; [congruence | reflexivity]).
     assert (HneR : d2 :: r2 <> []) by discriminate. remember (d2 :: r2) as R eqn:ER. clear ER.
-    destruct d as [l own body [|] | l]; cbn [plines].
+    destruct d as [l own body [|] | l |]; cbn [plines].
     + rewrite (Hlast _ _ (plines_ne _ _)). apply (IH [] HneR Hl').
     + apply (IH _ HneR Hl').
     + apply (IH _ HneR Hl').
+    + rewrite (Hlast _ _ (plines_ne _ _)). apply (IH [] HneR Hl').
 Qed.
 
 (* ---- the line rules on a skeleton ---- *)
@@ -360,7 +386,7 @@ Proof.
     (* the first line is not blank *)
     assert (Hg : gp l0).
     { replace l0 with (hd [] (plines [] ds)) by (rewrite El; reflexivity).
-      destruct ds as [|d r]; [congruence|]. destruct d as [l own body lf | l]; cbn [pds_ok first_ok] in Hok, Hfirst; cbn [plines].
+      destruct ds as [|d r]; [congruence|]. destruct d as [l own body lf | l |]; cbn [pds_ok first_ok] in Hok, Hfirst; cbn [plines]; [| |destruct Hfirst].
       - destruct Hok as (_ & _ & Hcase & Hnext & Hr). destruct body as [|c body'].
         + destruct Hfirst as [_ ->]. destruct (indent_next l own r Hr Hlast (Hnext eq_refl)) as [r' ->].
           cbn [app plines]. rewrite app_nil_r. apply hd_gp. apply blank_brace_gp, sp_blank.
@@ -380,11 +406,12 @@ Proof.
         { clear - Hok. revert Hok. generalize true. intros ls0 Hok.
           assert (H : forall ds ls cur, pds_ok ls ds -> exists Z, cur ++ sk_of ds = hd [] (plines cur ds) ++ Z).
           { clear. induction ds as [|d r IH]; intros ls cur Hok; [exists []; unfold sk_of; cbn; reflexivity|].
-            destruct d as [l own body lf | l]; cbn [pds_ok] in Hok; unfold sk_of; cbn [map concat pd_bytes plines]; fold (sk_of r).
+            destruct d as [l own body lf | l |]; cbn [pds_ok] in Hok; unfold sk_of; cbn [map concat pd_bytes plines]; fold (sk_of r).
             - destruct Hok as (_ & _ & _ & _ & Hr). destruct lf.
               + cbn [hd]. exists (10%N :: sk_of r). rewrite <- !app_assoc. reflexivity.
               + destruct (IH false (cur ++ sp own ++ body) Hr) as [Z EZ]. exists Z. rewrite <- EZ, app_nil_r, <- !app_assoc. reflexivity.
-            - destruct Hok as [_ Hr]. destruct (IH false (cur ++ [123%N]) Hr) as [Z EZ]. exists Z. rewrite <- EZ, <- app_assoc. reflexivity. }
+            - destruct Hok as [_ Hr]. destruct (IH false (cur ++ [123%N]) Hr) as [Z EZ]. exists Z. rewrite <- EZ, <- app_assoc. reflexivity.
+            - cbn [hd]. exists (10%N :: sk_of r). reflexivity. }
           destruct (H ds ls0 [] Hok) as [Z EZ]. exists Z. exact EZ. }
         destruct Esk as [Z EZ]. rewrite El in EZ. cbn [hd] in EZ. rewrite EZ, E. cbn [app dot_free]. rewrite Hd. reflexivity. }
       rewrite Hdf. apply orb_true_r.
@@ -398,7 +425,7 @@ Proof.
     pose proof (counted_tl ds [] Hok (fun _ => Hlast)) as Hc. rewrite El in Hc. cbn [tl] in Hc. unfold nb in Hc.
     (* the first line starts with a byte that is not a space *)
     assert (Hl0 : exists c w, l0 = c :: w /\ N.eqb c 32 = false).
-    { destruct ds as [|d r]; [congruence|]. destruct d as [l own body lf | l]; cbn [pds_ok first_ok] in Hok, Hfirst.
+    { destruct ds as [|d r]; [congruence|]. destruct d as [l own body lf | l |]; cbn [pds_ok first_ok] in Hok, Hfirst; [| |destruct Hfirst].
       - destruct Hok as (_ & _ & [Hown _] & _). subst own. destruct body as [|c body']; [destruct Hfirst as [H _]; discriminate H|].
         cbn [plines sp repeat app] in El. destruct lf.
         + injection El as <- _. exists c, body'. split; [reflexivity | apply Hfirst].
@@ -412,7 +439,7 @@ Proof.
 Qed.
 
 (* ============================================================================================== *)
-(* Part B: the pattern loop on a source without CR produces such a description                      *)
+(* Part B: the pattern loop on a source without a lone CR produces such a description              *)
 From FluentV Require Import Syntax.ParserAccounting Syntax.ParserShape Syntax.SerializerProofs.
 Arguments N.add : simpl never. Arguments N.sub : simpl never. Arguments N.ltb : simpl never. Arguments N.leb : simpl never.
 
@@ -431,12 +458,38 @@ Proof.
   destruct l as [|a l]; [rewrite !skipn_nil; reflexivity|]. rewrite Nat.add_succ_r. cbn [skipn]. apply IH.
 Qed.
 
+(* every CR is the first byte of a CR LF line end *)
+Fixpoint no_lone_cr (l : bytes) : bool :=
+  match l with
+  | [] => true
+  | b :: r => (negb (N.eqb b 13) || match r with c :: _ => N.eqb c 10 | [] => false end) && no_lone_cr r
+  end.
+
+Lemma no_lone_cr_at l : no_lone_cr l = true -> forall i, nth_error l i = Some 13%N -> nth_error l (S i) = Some 10%N.
+Proof.
+  induction l as [|b r IH]; intros H i Hi; [destruct i; discriminate Hi|]. cbn [no_lone_cr] in H. apply andb_prop in H as [H1 H2].
+  destruct i as [|i]; [|cbn [nth_error] in *; apply (IH H2 i Hi)].
+  cbn [nth_error] in Hi. injection Hi as ->. cbn [N.eqb Pos.eqb negb orb] in H1. destruct r as [|c r']; [discriminate H1|].
+  apply N.eqb_eq in H1. subst c. reflexivity.
+Qed.
+
+Lemma nocr_no_lone l : forallb (fun b => negb (N.eqb b 13)) l = true -> no_lone_cr l = true.
+Proof.
+  induction l as [|b r IH]; intros H; [reflexivity|]. cbn [forallb] in H. apply andb_prop in H as [H1 H2].
+  cbn [no_lone_cr]. rewrite H1, (IH H2). reflexivity.
+Qed.
+
+Definition nocr_l (v : bytes) : Prop := forall b, In b v -> N.eqb b 13 = false.
+
 Section Knot.
 Variable bs : bytes.
-Hypothesis Hnocr : forallb (fun b => negb (N.eqb b 13)) bs = true.
+Hypothesis Hnlc : no_lone_cr bs = true.
 
-Lemma nocr_at i b : nth_error bs i = Some b -> N.eqb b 13 = false.
-Proof. intros H. rewrite forallb_forall in Hnocr. apply negb_true_iff, Hnocr, (nth_error_In _ _ H). Qed.
+Lemma nlc_at i : nth_error bs i = Some 13%N -> nth_error bs (S i) = Some 10%N.
+Proof. apply (no_lone_cr_at bs Hnlc). Qed.
+
+Lemma rest_cr p i : nth_error (rest bs p) i = Some 13%N -> nth_error (rest bs p) (S i) = Some 10%N.
+Proof. unfold rest. rewrite !nth_error_skipn_add. replace (p + S i) with (S (p + i)) by lia. apply nlc_at. Qed.
 
 (* the bytes [s, e) of the source *)
 Definition seg (s e : nat) (v : bytes) : Prop := s <= e /\ e <= length bs /\ firstn (e - s) (skipn s bs) = v.
@@ -503,82 +556,120 @@ Qed.
 
 Definition slice_post (p : nat) (ts : nat * nat * bool * termination) (q : nat) : Prop :=
   let '(start, end_, nb, term) := ts in
-  start = p /\ q = end_ /\ exists text, no_lf text /\ nb = is_nonblank text /\
+  start = p /\ q = (match term with TCrlf => S end_ | _ => end_ end) /\
+  exists text, no_lf text /\ nocr_l text /\ nb = is_nonblank text /\
     match term with
     | TLineFeed => seg p end_ (text ++ [10%N])
     | TPlaceableStart => seg p end_ text /\ byte_at bs end_ = Some 123%N
     | TEof => seg p end_ text /\ length bs <= end_
-    | TCrlf => False
+    | TCrlf => seg p end_ text /\ byte_at bs end_ = Some 13%N /\ byte_at bs (S end_) = Some 10%N
     end.
+
+Lemma text_nocr (r : bytes) k :
+  (forall i c, i < k -> nth_error r i = Some c -> N.eqb c 10 = false) ->
+  (forall i, nth_error r i = Some 13%N -> nth_error r (S i) = Some 10%N) ->
+  (forall i, S i = k -> nth_error r i <> Some 13%N) ->
+  nocr_l (firstn k r).
+Proof.
+  intros Hns Hcr Hlast b Hin. destruct (N.eqb b 13) eqn:E; [|reflexivity]. exfalso. apply N.eqb_eq in E. subst b.
+  apply In_nth_error in Hin as [i Hi]. destruct (nth_firstn_lt _ _ _ _ Hi) as [Hlt Hi'].
+  pose proof (Hcr i Hi') as Hn. destruct (Nat.eq_dec (S i) k) as [Ek | Ek]; [exact (Hlast i Ek Hi')|].
+  specialize (Hns (S i) 10%N ltac:(lia) Hn). discriminate Hns.
+Qed.
 
 Lemma st_text_slice p : p <= length bs -> spec (get_text_slice bs) p (slice_post p) ET.
 Proof.
   intros Hp. unfold spec, get_text_slice. replace (Nat.ltb (length_ bs) p) with false by (symmetry; apply Nat.ltb_ge; exact Hp).
   assert (Hlen : length (rest bs p) = length bs - p) by (unfold rest; apply skipn_length).
+  pose proof (rest_cr p) as Hcr.
   destruct (memchr3 (rest bs p)) as [k|] eqn:Em.
   - destruct (memchr3_some_nth _ k Em) as (b & Hb & Hspec). rewrite Hb.
     assert (Hk : k < length (rest bs p)) by (apply nth_error_Some; congruence).
-    assert (Htext : no_lf (firstn k (rest bs p))).
-    { apply no_lf_of_nth. intros i c Hc. destruct (nth_firstn_lt _ _ _ _ Hc) as [Hi Hc'].
-      apply (special_false c (memchr3_before _ k Em i c Hi Hc')). }
-    assert (Hseg : seg p (k + p) (firstn k (rest bs p))).
-    { split; [lia | split; [lia|]]. replace (k + p - p) with k by lia. reflexivity. }
+    assert (Hns : forall i c, i < k -> nth_error (rest bs p) i = Some c -> N.eqb c 10 = false).
+    { intros i c Hi Hc. apply N.eqb_neq. apply (special_false c (memchr3_before _ k Em i c Hi Hc)). }
+    assert (Htext : forall j, j <= k -> no_lf (firstn j (rest bs p))).
+    { intros j Hj. apply no_lf_of_nth. intros i c Hc. destruct (nth_firstn_lt _ _ _ _ Hc) as [Hi Hc'].
+      apply (special_false c (memchr3_before _ k Em i c ltac:(lia) Hc')). }
+    assert (Hseg : forall j, j <= k -> seg p (j + p) (firstn j (rest bs p))).
+    { intros j Hj. split; [lia | split; [lia|]]. replace (j + p - p) with j by lia. reflexivity. }
     destruct (N.eqb b 125) eqn:E125; [exact Logic.I|].
     destruct (N.eqb b c_lf) eqn:Elf.
     + apply N.eqb_eq in Elf. subst b.
       assert (Hseg2 : seg p (S k + p) (firstn k (rest bs p) ++ [10%N])).
       { split; [lia | split; [lia|]]. replace (S k + p - p) with (S k) by lia. apply (firstn_S_nth _ k _ Hb). }
-      assert (Hres : slice_post p (p, S k + p, is_nonblank (firstn k (rest bs p)), TLineFeed) (S k + p)).
-      { cbn. split; [reflexivity | split; [reflexivity|]]. exists (firstn k (rest bs p)). split; [exact Htext | split; [reflexivity | exact Hseg2]]. }
-      destruct k as [|k']; [exact Hres|].
-      destruct (nth_error (rest bs p) k') as [c|] eqn:Ec; [|exact Hres].
-      unfold rest in Ec. rewrite nth_error_skipn_add in Ec. unfold c_cr. rewrite (nocr_at _ _ Ec). exact Hres.
+      assert (Hres : (forall i, S i = k -> nth_error (rest bs p) i <> Some 13%N) ->
+                     slice_post p (p, S k + p, is_nonblank (firstn k (rest bs p)), TLineFeed) (S k + p)).
+      { intros Hl. cbn. split; [reflexivity | split; [reflexivity|]]. exists (firstn k (rest bs p)).
+        split; [apply Htext; lia | split; [apply (text_nocr _ k Hns Hcr Hl) | split; [reflexivity | exact Hseg2]]]. }
+      destruct k as [|k']; [apply Hres; intros i Hi; discriminate Hi|].
+      destruct (nth_error (rest bs p) k') as [c|] eqn:Ec; [|apply Hres; intros i Hi; injection Hi as ->; rewrite Ec; discriminate].
+      destruct (N.eqb c c_cr) eqn:Ecr; [|apply Hres; intros i Hi; injection Hi as ->; rewrite Ec; intros E; injection E as ->; discriminate Ecr].
+      apply N.eqb_eq in Ecr. subst c.
+      assert (Hres2 : slice_post p (p, k' + p, is_nonblank (firstn k' (rest bs p)), TCrlf) (S (k' + p))).
+      { assert (Hb13 : byte_at bs (k' + p) = Some 13%N) by (unfold byte_at; unfold rest in Ec; rewrite nth_error_skipn_add in Ec; rewrite Nat.add_comm; exact Ec).
+        assert (Hb10 : byte_at bs (S (k' + p)) = Some 10%N).
+        { unfold byte_at. unfold rest in Hb. rewrite nth_error_skipn_add in Hb. replace (S (k' + p)) with (p + S k') by lia. exact Hb. }
+        unfold slice_post. split; [reflexivity | split; [reflexivity|]]. exists (firstn k' (rest bs p)).
+        split; [apply Htext; lia|]. split.
+        - apply (text_nocr _ k'); [intros i c Hi Hc; apply (Hns i c ltac:(lia) Hc) | exact Hcr|].
+          intros i Hi E. subst k'. rewrite (Hcr i E) in Ec. discriminate Ec.
+        - split; [reflexivity|]. split; [apply Hseg; lia|]. split; assumption. }
+      cbv zeta. replace (S k' + p - 1) with (k' + p) by lia. exact Hres2.
     + assert (E123 : b = 123%N).
       { cbn [orb] in Hspec. rewrite orb_false_r in Hspec. apply N.eqb_eq, Hspec. }
       subst b. cbn. split; [reflexivity | split; [reflexivity|]]. exists (firstn k (rest bs p)).
-      split; [exact Htext | split; [reflexivity | split; [exact Hseg|]]].
+      split; [apply Htext; lia|]. split.
+      { apply (text_nocr _ k Hns Hcr). intros i Hi E. subst k. rewrite (Hcr i E) in Hb. discriminate Hb. }
+      split; [reflexivity | split; [apply Hseg; lia|]].
       unfold byte_at. unfold rest in Hb. rewrite nth_error_skipn_add in Hb. rewrite Nat.add_comm. exact Hb.
-  - cbn. split; [reflexivity | split; [reflexivity|]]. exists (rest bs p). split; [|split; [reflexivity | split; [|lia]]].
+  - cbn. split; [reflexivity | split; [reflexivity|]]. exists (rest bs p). split; [|split; [|split; [reflexivity | split; [|lia]]]].
     + apply no_lf_of_nth. intros i c Hc. apply (special_false c (memchr3_none _ Em i c Hc)).
+    + rewrite <- (firstn_all (rest bs p)). apply text_nocr; [|exact Hcr|].
+      * intros i c _ Hc. apply N.eqb_neq. apply (special_false c (memchr3_none _ Em i c Hc)).
+      * intros i Hi E. pose proof (Hcr i E) as Hn. assert (S i < length (rest bs p)) by (apply nth_error_Some; congruence). lia.
     + split; [lia | split; [lia|]]. replace (length (rest bs p) + p - p) with (length (rest bs p)) by lia. apply firstn_all.
 Qed.
 
 
 (* ---- appending a piece ---- *)
 Fixpoint end_ls (ls : bool) (ds : list pd) : bool :=
-  match ds with [] => ls | PdText _ _ _ lf :: r => end_ls lf r | PdPlace _ :: r => end_ls false r end.
+  match ds with [] => ls | PdText _ _ _ lf :: r => end_ls lf r | PdPlace _ :: r => end_ls false r | PdEol :: r => end_ls true r end.
 Definition needs_place (ds : list pd) : Prop :=
   match last ds (PdPlace false) with PdText _ _ _ false => True | _ => False end.
+Definition has_body (ds : list pd) : Prop :=
+  match last ds (PdPlace false) with PdText _ _ (_ :: _) _ => True | _ => False end.
 
 Lemma pds_ok_snoc ds : forall ls d, pds_ok ls ds -> pds_ok (end_ls ls ds) [d] ->
-  (needs_place ds -> exists l, d = PdPlace l) -> pds_ok ls (ds ++ [d]).
+  (needs_place ds -> (exists l, d = PdPlace l) \/ (d = PdEol /\ has_body ds)) -> pds_ok ls (ds ++ [d]).
 Proof.
   induction ds as [|x r IH]; intros ls d Hok Hd Hnp; [exact Hd|].
-  assert (Hnp' : r <> [] -> needs_place r -> exists l, d = PdPlace l).
-  { intros Hr H. apply Hnp. unfold needs_place in *. destruct r; [congruence | exact H]. }
-  destruct x as [l own body lf | l]; cbn [pds_ok end_ls app] in *.
+  assert (Hnp' : r <> [] -> needs_place r -> (exists l, d = PdPlace l) \/ (d = PdEol /\ has_body r)).
+  { intros Hr H. unfold needs_place, has_body in *. destruct r; [congruence | exact (Hnp H)]. }
+  destruct x as [l own body lf | l |]; cbn [pds_ok end_ls app] in *.
   - destruct Hok as (El & Hb & Hcase & Hnext & Hr). split; [exact El|]. split; [exact Hb|]. split; [exact Hcase|]. split.
-    + intros Hlf. specialize (Hnext Hlf). destruct r as [|y r']; [|destruct y; [destruct Hnext | exact Logic.I]].
-      cbn [app]. subst lf. destruct (Hnp Logic.I) as [l' ->]. exact Logic.I.
+    + intros Hlf. specialize (Hnext Hlf). destruct r as [|y r']; [|destruct y; exact Hnext].
+      cbn [app]. subst lf. destruct (Hnp Logic.I) as [[l' ->] | [-> Hbd]]; [exact Logic.I|].
+      unfold has_body in Hbd. cbn [last] in Hbd. destruct body; [destruct Hbd | discriminate].
     + destruct r as [|y r']; [exact Hd|]. apply (IH lf d Hr Hd). intros H. apply (Hnp' ltac:(discriminate) H).
   - destruct Hok as [El Hr]. split; [exact El|]. destruct r as [|y r']; [exact Hd|]. apply (IH false d Hr Hd). intros H. apply (Hnp' ltac:(discriminate) H).
+  - destruct Hok as [El Hr]. split; [exact El|]. destruct r as [|y r']; [exact Hd|]. apply (IH true d Hr Hd). intros H. apply (Hnp' ltac:(discriminate) H).
 Qed.
 
-Lemma end_ls_snoc ds : forall ls d, end_ls ls (ds ++ [d]) = match d with PdText _ _ _ lf => lf | PdPlace _ => false end.
+Lemma end_ls_snoc ds : forall ls d, end_ls ls (ds ++ [d]) = match d with PdText _ _ _ lf => lf | PdPlace _ => false | PdEol => true end.
 Proof. induction ds as [|x r IH]; intros ls d; [destruct d; reflexivity|]. destruct x; cbn [app end_ls]; apply IH. Qed.
 
 Lemma counted_app a b : counted (a ++ b) = counted a ++ counted b.
 Proof.
-  induction a as [|x r IH]; [reflexivity|]. destruct x as [[|] own [|c body] [|] | [|]]; cbn [app counted]; rewrite IH; reflexivity.
+  induction a as [|x r IH]; [reflexivity|]. destruct x as [[|] own [|c body] [|] | [|] |]; cbn [app counted]; rewrite IH; reflexivity.
 Qed.
 
 Lemma first_ok_snoc block ds d : ds <> [] -> first_ok block ds -> first_ok block (ds ++ [d]).
 Proof. destruct ds as [|x r]; [congruence|]. intros _ H. exact H. Qed.
 
 (* ---- the description of the placeholders of the loop: independent of the common indentation ---- *)
-Inductive qd := QText (ls : bool) (ind : nat) (body : bytes) (lf : bool) | QPlace (ls : bool).
+Inductive qd := QText (ls : bool) (ind : nat) (body : bytes) (lf : bool) | QPlace (ls : bool) | QEol.
 Definition to_pd (c : nat) (q : qd) : pd :=
-  match q with QText ls i body lf => PdText ls (i - c) body lf | QPlace ls => PdPlace ls end.
+  match q with QText ls i body lf => PdText ls (i - c) body lf | QPlace ls => PdPlace ls | QEol => PdEol end.
 Definition lfb (lf : bool) : bytes := if lf then [10%N] else [].
 
 (* the knot's conclusion for an expression: its patterns, joined, satisfy the line rules *)
@@ -588,11 +679,12 @@ Definition ph_q (ph : placeholder) (q : qd) : Prop :=
   match ph, q with
   | PHPlaceable e, QPlace _ => LE e
   | PHText s e ind role, QText ls qi body lf =>
-      ls = is_line_start role /\ seg s e (sp qi ++ body ++ lfb lf) /\ (ls = true -> ind = qi) /\ (ls = false -> qi = 0)
+      ls = is_line_start role /\ seg s e (sp qi ++ body ++ lfb lf) /\ (ls = true -> ind = qi) /\ (ls = false -> qi = 0) /\ nocr_l body
+  | PHText s e ind role, QEol => role = LineStart /\ seg s e [10%N] /\ ind = 0
   | _, _ => False
   end.
 
-Definition q_nonblank (q : qd) : bool := match q with QText _ _ body _ => is_nonblank body | QPlace _ => true end.
+Definition q_nonblank (q : qd) : bool := match q with QText _ _ body _ => is_nonblank body | QPlace _ => true | QEol => false end.
 Definition ci_rel (ci : option nat) (l : list nat) : Prop :=
   match ci with None => l = [] | Some m => In m l /\ Forall (fun i => m <= i) l end.
 Definition lnb_rel (lnb : option nat) (qs : list qd) : Prop :=
@@ -602,22 +694,24 @@ Definition lnb_rel (lnb : option nat) (qs : list qd) : Prop :=
   end.
 
 Definition pds0 (qs : list qd) : list pd := map (to_pd 0) qs.
+Definition q_body (qs : list qd) : Prop := match last qs (QPlace false) with QText _ _ (_ :: _) _ => True | _ => False end.
 
-Record inv (block : bool) (st : pstate) (qs : list qd) (p : nat) : Prop := mk_inv {
+(* pend: the loop stands on the LF of a CR LF line end whose line is not closed in the description yet *)
+Record inv (block pend : bool) (st : pstate) (qs : list qd) (p : nat) : Prop := mk_inv {
   i_rel : Forall2 ph_q (rev (elements st)) qs;
   i_ok : pds_ok block (pds0 qs);
-  i_role : is_line_start (role st) = end_ls block (pds0 qs);
+  i_role : is_line_start (role st) = end_ls block (pds0 qs) || pend;
   i_init : qs = [] -> role st = (if block then LineStart else InitialLineStart);
   i_n : n_elements st = length qs;
   i_ci : ci_rel (common_indent st) (counted (pds0 qs));
   i_lnb : lnb_rel (last_non_blank st) qs;
   i_first : first_ok block (pds0 qs);
   i_pos : needs_place (pds0 qs) ->
-          byte_at bs p = Some 123%N \/
-          (length bs <= p /\ match last qs (QPlace false) with QText _ _ (_ :: _) _ => True | _ => False end);
+          byte_at bs p = Some 123%N \/ (length bs <= p /\ q_body qs) \/ (pend = true /\ q_body qs);
   i_start : qs = [] ->
             if block then no_blank_line_head (rest bs p)
-            else forall b, byte_at bs p = Some b -> N.eqb b 32 = false /\ N.eqb b 10 = false
+            else forall b, byte_at bs p = Some b -> N.eqb b 32 = false /\ N.eqb b 10 = false /\ N.eqb b 13 = false;
+  i_pend : pend = true -> byte_at bs p = Some 10%N /\ end_ls block (pds0 qs) = false /\ qs <> []
 }.
 
 
@@ -634,12 +728,12 @@ Proof. intros H. split; [lia | split; [exact H|]]. rewrite Nat.sub_diag. reflexi
 
 Definition pro_post (r : position) (p : nat) (o : option nat) (q : nat) : Prop :=
   match o with
-  | None => True
+  | None => is_line_start r = true -> byte_at bs p <> Some 10%N
   | Some k =>
       q = k + p /\ k + p < length bs /\
       if is_line_start r
       then k = scan_while is_space (rest bs p) /\ seg p (k + p) (sp k) /\
-           exists b, byte_at bs (k + p) = Some b /\ N.eqb b 32 = false /\ is_byte_pattern_continuation b = true /\ (k = 0 -> b = 10%N)
+           exists b, byte_at bs (k + p) = Some b /\ N.eqb b 32 = false /\ is_byte_pattern_continuation b = true /\ (k = 0 -> b = 10%N \/ b = 13%N)
       else k = 0
   end.
 
@@ -648,7 +742,9 @@ Proof.
   intros Hp. unfold prologue, pro_post. destruct (is_line_start r); [|apply spec_ret; split; [reflexivity | split; [lia | reflexivity]]].
   eapply spec_bind; [apply sp_skip_blank_inline | intros ? ? []|]. intros k q [-> Ek].
   eapply spec_bind; [apply sp_current_byte | intros ? ? []|]. intros cb q [-> ->].
-  destruct (byte_at bs (k + p)) as [b|] eqn:Eb; [|apply spec_ret; exact Logic.I].
+  assert (H10 : byte_at bs p = Some 10%N -> k = 0).
+  { intros E. subst k. unfold rest. unfold byte_at in E. rewrite (skipn_uncons bs p), E. reflexivity. }
+  destruct (byte_at bs (k + p)) as [b|] eqn:Eb; [|apply spec_ret; intros _ E; rewrite (H10 E) in Eb; cbn [Nat.add] in Eb; congruence].
   assert (Hlt : k + p < length bs) by (apply nth_error_Some; unfold byte_at in Eb; congruence).
   assert (Hseg : seg p (k + p) (sp k)).
   { split; [lia | split; [lia|]]. replace (k + p - p) with k by lia. subst k. fold (rest bs p).
@@ -661,12 +757,16 @@ Proof.
     unfold is_eol in Heol. rewrite Eb in Heol. injection Heol as <- <-.
     destruct (N.eqb b c_lf) eqn:Elf.
     + apply spec_ret. split; [reflexivity | split; [exact Hlt | split; [exact Ek | split; [exact Hseg|]]]]. apply N.eqb_eq in Elf. subst b.
-      exists 10%N. repeat split; try reflexivity. exact Eb.
-    + unfold c_cr. rewrite (nocr_at _ _ Eb). apply spec_ret. exact Logic.I.
+      exists 10%N. split; [exact Eb|]. split; [reflexivity|]. split; [reflexivity|]. intros _. left. reflexivity.
+    + destruct (N.eqb b c_cr) eqn:Ecr.
+      2:{ apply spec_ret. intros _ E. rewrite Ek0 in Eb. cbn [Nat.add] in Eb. rewrite E in Eb. injection Eb as <-. discriminate Elf. }
+      apply N.eqb_eq in Ecr. subst b. unfold is_byte_at. unfold byte_at in Eb. unfold byte_at. rewrite (nlc_at _ Eb). cbn [N.eqb c_lf Pos.eqb negb].
+      apply spec_ret. split; [reflexivity | split; [exact Hlt | split; [exact Ek | split; [exact Hseg|]]]].
+      exists c_cr. split; [exact Eb|]. split; [reflexivity|]. split; [reflexivity|]. intros _. right. reflexivity.
   - destruct (is_byte_pattern_continuation b) eqn:Ec; cbn [negb].
     + apply spec_ret. split; [reflexivity | split; [exact Hlt | split; [exact Ek | split; [exact Hseg|]]]].
       exists b. split; [exact Eb | split; [exact Hb32 | split; [exact Ec|]]]. intros ->. discriminate Ek0.
-    + eapply spec_bind; [apply spec_any | intros; exact Logic.I|]. intros. apply spec_ret. exact Logic.I.
+    + eapply spec_bind; [apply spec_any | intros; exact Logic.I|]. intros. apply spec_ret. intros _ E. rewrite (H10 E) in Ek0. discriminate Ek0.
 Qed.
 
 
@@ -693,64 +793,131 @@ Proof.
   rewrite skipn_all2; [constructor | rewrite app_length; cbn [length]; lia].
 Qed.
 
-Lemma lnb_lt block st qs p : inv block st qs p -> forall i, last_non_blank st = Some i -> i < length qs.
+Lemma lnb_lt block pend st qs p : inv block pend st qs p -> forall i, last_non_blank st = Some i -> i < length qs.
 Proof.
-  intros H i Hi. pose proof (i_lnb _ _ _ _ H) as Hl. rewrite Hi in Hl. destruct Hl as (q & Hn & _). apply nth_error_Some. congruence.
+  intros H i Hi. pose proof (i_lnb _ _ _ _ _ H) as Hl. rewrite Hi in Hl. destruct Hl as (q & Hn & _). apply nth_error_Some. congruence.
 Qed.
 
-Lemma inv_push_place block st qs p e q' : inv block st qs p -> LE e ->
-  inv block (PState (PHPlaceable e :: elements st) (S (n_elements st)) (Some (n_elements st))
+Lemma q_body_has qs : q_body qs -> has_body (pds0 qs).
+Proof.
+  unfold q_body, has_body, pds0. destruct qs as [|q0 qs' _] using rev_ind; [intros []|]. rewrite map_app. cbn [map]. rewrite !last_last.
+  destruct q0 as [l qi [|c b] lf | l |]; cbn [to_pd]; intros H; exact H.
+Qed.
+
+Lemma seg_byte p b : byte_at bs p = Some b -> seg p (S p) [b].
+Proof.
+  intros H. unfold byte_at in H. assert (Hlt : p < length bs) by (apply nth_error_Some; congruence).
+  split; [lia | split; [lia|]]. replace (S p - p) with 1 by lia. rewrite (skipn_uncons bs p), H. reflexivity.
+Qed.
+
+Lemma inv_push_place block st qs p e q' : inv block false st qs p -> LE e ->
+  inv block false (PState (PHPlaceable e :: elements st) (S (n_elements st)) (Some (n_elements st))
                     (if is_line_start (role st) then Some 0 else common_indent st) Continuation)
       (qs ++ [QPlace (is_line_start (role st))]) q'.
 Proof.
   intros H He. set (ls := is_line_start (role st)).
+  assert (Hrole : ls = end_ls block (pds0 qs)) by (unfold ls; rewrite (i_role _ _ _ _ _ H), orb_false_r; reflexivity).
   constructor; cbn [elements role n_elements common_indent last_non_blank].
-  - cbn [rev]. apply Forall2_app; [apply (i_rel _ _ _ _ H) | constructor; [exact He | constructor]].
-  - rewrite pds0_snoc. apply pds_ok_snoc; [apply (i_ok _ _ _ _ H) | | intros _; eexists; reflexivity].
-    cbn [to_pd pds_ok]. split; [apply (i_role _ _ _ _ H) | exact Logic.I].
+  - cbn [rev]. apply Forall2_app; [apply (i_rel _ _ _ _ _ H) | constructor; [exact He | constructor]].
+  - rewrite pds0_snoc. apply pds_ok_snoc; [apply (i_ok _ _ _ _ _ H) | | intros _; left; eexists; reflexivity].
+    cbn [to_pd pds_ok]. split; [exact Hrole | exact Logic.I].
   - rewrite pds0_snoc, end_ls_snoc. reflexivity.
   - intros E. destruct qs; discriminate E.
-  - rewrite app_length, (i_n _ _ _ _ H). cbn [length]. lia.
-  - rewrite pds0_snoc, counted_app. cbn [to_pd counted]. pose proof (i_ci _ _ _ _ H) as Hc. fold ls. destruct ls.
+  - rewrite app_length, (i_n _ _ _ _ _ H). cbn [length]. lia.
+  - rewrite pds0_snoc, counted_app. cbn [to_pd counted]. pose proof (i_ci _ _ _ _ _ H) as Hc. fold ls. destruct ls.
     + cbn [ci_rel]. split; [apply in_or_app; right; left; reflexivity | apply Forall_forall; intros; lia].
     + rewrite app_nil_r. exact Hc.
-  - rewrite (i_n _ _ _ _ H). apply lnb_rel_snoc_nonblank. reflexivity.
-  - rewrite pds0_snoc. destruct qs as [|q0 qs']; [exact Logic.I|]. apply first_ok_snoc; [discriminate | apply (i_first _ _ _ _ H)].
+  - rewrite (i_n _ _ _ _ _ H). apply lnb_rel_snoc_nonblank. reflexivity.
+  - rewrite pds0_snoc. destruct qs as [|q0 qs']; [exact Logic.I|]. apply first_ok_snoc; [discriminate | apply (i_first _ _ _ _ _ H)].
   - rewrite pds0_snoc. intros Hn. destruct (needs_place_snoc_place _ _ Hn).
   - intros E. destruct qs; discriminate E.
+  - discriminate.
 Qed.
 
 
-Lemma inv_push_text block st qs p s e ind qi body lf ci' role' q' :
-  inv block st qs p ->
+Lemma inv_push_text block st qs p s e ind qi body lf ci' role' pend' q' :
+  inv block false st qs p ->
   seg s e (sp qi ++ body ++ lfb lf) -> (is_line_start (role st) = true -> ind = qi) -> (is_line_start (role st) = false -> qi = 0) ->
+  nocr_l body ->
   pds_ok (is_line_start (role st)) [PdText (is_line_start (role st)) qi body lf] ->
   (qs = [] -> first_ok block [PdText (is_line_start (role st)) qi body lf]) ->
-  (lf = false -> byte_at bs q' = Some 123%N \/ (length bs <= q' /\ body <> [])) ->
+  (lf = false -> byte_at bs q' = Some 123%N \/ (length bs <= q' /\ body <> []) \/ (pend' = true /\ body <> [])) ->
   (needs_place (pds0 qs) -> False) ->
   ci_rel ci' (counted (pds0 qs) ++ counted [PdText (is_line_start (role st)) qi body lf]) ->
-  is_line_start role' = lf ->
-  inv block (PState (PHText s e ind (role st) :: elements st) (S (n_elements st))
+  is_line_start role' = lf || pend' ->
+  (pend' = true -> byte_at bs q' = Some 10%N /\ lf = false) ->
+  inv block pend' (PState (PHText s e ind (role st) :: elements st) (S (n_elements st))
                     (if is_nonblank body then Some (n_elements st) else last_non_blank st) ci' role')
       (qs ++ [QText (is_line_start (role st)) qi body lf]) q'.
 Proof.
-  intros H Hseg Hi1 Hi2 Hself Hfirst Hpos Hnp Hci Hrole. set (ls := is_line_start (role st)) in *.
+  intros H Hseg Hi1 Hi2 Hcr Hself Hfirst Hpos Hnp Hci Hrole Hpend. set (ls := is_line_start (role st)) in *.
+  assert (Hrole0 : ls = end_ls block (pds0 qs)) by (unfold ls; rewrite (i_role _ _ _ _ _ H), orb_false_r; reflexivity).
   constructor; cbn [elements role n_elements common_indent last_non_blank].
-  - cbn [rev]. apply Forall2_app; [apply (i_rel _ _ _ _ H)|]. constructor; [|constructor]. cbn [ph_q]. split; [reflexivity | split; [exact Hseg | split; assumption]].
-  - rewrite pds0_snoc. cbn [to_pd]. rewrite Nat.sub_0_r. apply pds_ok_snoc; [apply (i_ok _ _ _ _ H) | | intros Hn; destruct (Hnp Hn)].
-    rewrite <- (i_role _ _ _ _ H). exact Hself.
+  - cbn [rev]. apply Forall2_app; [apply (i_rel _ _ _ _ _ H)|]. constructor; [|constructor]. cbn [ph_q].
+    split; [reflexivity | split; [exact Hseg | split; [assumption | split; assumption]]].
+  - rewrite pds0_snoc. cbn [to_pd]. rewrite Nat.sub_0_r. apply pds_ok_snoc; [apply (i_ok _ _ _ _ _ H) | | intros Hn; destruct (Hnp Hn)].
+    rewrite <- Hrole0. exact Hself.
   - rewrite pds0_snoc, end_ls_snoc. cbn [to_pd]. exact Hrole.
   - intros E. destruct qs; discriminate E.
-  - rewrite app_length, (i_n _ _ _ _ H). cbn [length]. lia.
+  - rewrite app_length, (i_n _ _ _ _ _ H). cbn [length]. lia.
   - rewrite pds0_snoc, counted_app. cbn [to_pd]. rewrite Nat.sub_0_r. exact Hci.
   - destruct (is_nonblank body) eqn:Enb.
-    + rewrite (i_n _ _ _ _ H). apply lnb_rel_snoc_nonblank. exact Enb.
-    + apply lnb_rel_snoc_blank; [apply (i_lnb _ _ _ _ H) | exact Enb | apply (lnb_lt block st qs p H)].
+    + rewrite (i_n _ _ _ _ _ H). apply lnb_rel_snoc_nonblank. exact Enb.
+    + apply lnb_rel_snoc_blank; [apply (i_lnb _ _ _ _ _ H) | exact Enb | apply (lnb_lt block false st qs p H)].
   - rewrite pds0_snoc. cbn [to_pd]. rewrite Nat.sub_0_r. destruct qs as [|q0 qs']; [apply Hfirst; reflexivity|].
-    apply first_ok_snoc; [discriminate | apply (i_first _ _ _ _ H)].
-  - rewrite pds0_snoc. cbn [to_pd]. unfold needs_place. rewrite !last_last. destruct lf; [intros []|]. intros _.
-    destruct (Hpos eq_refl) as [H1 | [H1 H2]]; [left; exact H1 | right; split; [exact H1 | destruct body; [congruence | exact Logic.I]]].
+    apply first_ok_snoc; [discriminate | apply (i_first _ _ _ _ _ H)].
+  - rewrite pds0_snoc. cbn [to_pd]. unfold needs_place, q_body. rewrite !last_last. destruct lf; [intros []|]. intros _.
+    assert (Hb : body <> [] -> match body with [] => False | _ :: _ => True end) by (destruct body; [congruence | intros _; exact Logic.I]).
+    destruct (Hpos eq_refl) as [H1 | [[H1 H2] | [H1 H2]]]; [left; exact H1 | right; left; split; [exact H1 | apply Hb, H2] | right; right; split; [exact H1 | apply Hb, H2]].
   - intros E. destruct qs; discriminate E.
+  - intros E. destruct (Hpend E) as [Hb Hlf]. split; [exact Hb|]. split; [rewrite pds0_snoc, end_ls_snoc; cbn [to_pd]; exact Hlf|].
+    intros E2. destruct qs; discriminate E2.
+Qed.
+
+(* the LF of a CR LF line end: the parser keeps it as an element of its own *)
+Lemma inv_push_eol block st qs p : inv block true st qs p ->
+  inv block false (PState (PHText p (S p) 0 (role st) :: elements st) (S (n_elements st)) (last_non_blank st) (common_indent st) LineStart)
+      (qs ++ [QEol]) (S p).
+Proof.
+  intros H. destruct (i_pend _ _ _ _ _ H eq_refl) as (Hb10 & Hend & Hne).
+  assert (Hr : role st = LineStart).
+  { pose proof (i_role _ _ _ _ _ H) as Hr. rewrite orb_true_r in Hr. destruct (role st); [discriminate Hr | reflexivity | discriminate Hr]. }
+  constructor; cbn [elements role n_elements common_indent last_non_blank].
+  - cbn [rev]. apply Forall2_app; [apply (i_rel _ _ _ _ _ H)|]. constructor; [|constructor]. cbn [ph_q].
+    split; [exact Hr | split; [apply seg_byte, Hb10 | reflexivity]].
+  - rewrite pds0_snoc. cbn [to_pd]. apply pds_ok_snoc; [apply (i_ok _ _ _ _ _ H) | cbn [pds_ok]; split; [exact Hend | exact Logic.I]|].
+    intros Hn. right. split; [reflexivity|]. apply q_body_has.
+    destruct (i_pos _ _ _ _ _ H Hn) as [E | [[E _] | [_ E]]]; [rewrite Hb10 in E; discriminate E | | exact E].
+    exfalso. unfold byte_at in Hb10. assert (p < length bs) by (apply nth_error_Some; congruence). lia.
+  - rewrite pds0_snoc, end_ls_snoc. reflexivity.
+  - intros E. destruct qs; discriminate E.
+  - rewrite app_length, (i_n _ _ _ _ _ H). cbn [length]. lia.
+  - rewrite pds0_snoc, counted_app. cbn [to_pd counted]. rewrite app_nil_r. apply (i_ci _ _ _ _ _ H).
+  - apply lnb_rel_snoc_blank; [apply (i_lnb _ _ _ _ _ H) | reflexivity | apply (lnb_lt block true st qs p H)].
+  - rewrite pds0_snoc. apply first_ok_snoc; [|apply (i_first _ _ _ _ _ H)]. unfold pds0. destruct qs; [congruence | discriminate].
+  - rewrite pds0_snoc. cbn [to_pd]. unfold needs_place. rewrite last_last. intros [].
+  - intros E. destruct qs; discriminate E.
+  - discriminate.
+Qed.
+
+(* a CR LF line end with nothing in front of it on its line: nothing is pushed *)
+Lemma inv_move block st qs p (pend' : bool) p' :
+  inv block false st qs p -> (needs_place (pds0 qs) -> False) -> qs <> [] ->
+  (if pend' then byte_at bs p' = Some 10%N /\ end_ls block (pds0 qs) = false else is_line_start (role st) = true) ->
+  inv block pend' (PState (elements st) (n_elements st) (last_non_blank st) (common_indent st) LineStart) qs p'.
+Proof.
+  intros H Hnp Hne Hp. constructor; cbn [elements role n_elements common_indent last_non_blank].
+  - apply (i_rel _ _ _ _ _ H).
+  - apply (i_ok _ _ _ _ _ H).
+  - destruct pend'; [rewrite orb_true_r; reflexivity|]. rewrite orb_false_r. rewrite (i_role _ _ _ _ _ H), orb_false_r in Hp. rewrite Hp. reflexivity.
+  - intros E. destruct (Hne E).
+  - apply (i_n _ _ _ _ _ H).
+  - apply (i_ci _ _ _ _ _ H).
+  - apply (i_lnb _ _ _ _ _ H).
+  - apply (i_first _ _ _ _ _ H).
+  - intros Hn. destruct (Hnp Hn).
+  - intros E. destruct (Hne E).
+  - intros ->. destruct Hp as [H1 H2]. split; [exact H1 | split; [exact H2 | exact Hne]].
 Qed.
 
 
@@ -763,15 +930,16 @@ Record fin (block : bool) (st : pstate) (qs : list qd) : Prop := mk_fin {
   f_first : first_ok block (pds0 qs);
   f_noind : match last qs (QPlace false) with QText true _ [] false => False | _ => True end
 }.
-Lemma inv_fin block st qs p : inv block st qs p -> (needs_place (pds0 qs) -> length bs <= p) -> fin block st qs.
+Lemma inv_fin block pend st qs p : inv block pend st qs p -> (needs_place (pds0 qs) -> length bs <= p) -> fin block st qs.
 Proof.
-  intros H Hend. constructor; [apply (i_rel _ _ _ _ H) | apply (i_ok _ _ _ _ H) | apply (i_ci _ _ _ _ H) | apply (i_lnb _ _ _ _ H) | apply (i_first _ _ _ _ H)|].
-  destruct (last qs (QPlace false)) as [[|] qi [|c body] [|] | l] eqn:El; try exact Logic.I.
+  intros H Hend. constructor; [apply (i_rel _ _ _ _ _ H) | apply (i_ok _ _ _ _ _ H) | apply (i_ci _ _ _ _ _ H) | apply (i_lnb _ _ _ _ _ H) | apply (i_first _ _ _ _ _ H)|].
+  destruct (last qs (QPlace false)) as [[|] qi [|c body] [|] | l |] eqn:El; try exact Logic.I.
   assert (Hnp : needs_place (pds0 qs)).
   { unfold needs_place, pds0. destruct qs as [|q0 qs'] using rev_ind; [discriminate El|]. rewrite last_last in El. subst. rewrite map_app. cbn [map]. rewrite last_last. exact Logic.I. }
-  destruct (i_pos _ _ _ _ H Hnp) as [E | [_ E]].
+  destruct (i_pos _ _ _ _ _ H Hnp) as [E | [[_ E] | [_ E]]].
   - specialize (Hend Hnp). unfold byte_at in E. assert (Hlt : p < length bs) by (apply nth_error_Some; rewrite E; discriminate). lia.
-  - rewrite El in E. exact E.
+  - unfold q_body in E. rewrite El in E. exact E.
+  - unfold q_body in E. rewrite El in E. exact E.
 Qed.
 
 (* ---- the conclusions of the knot ---- *)
@@ -814,7 +982,7 @@ Definition finish_goal : Prop := forall block st qs p, fin block st qs -> spec (
 
 Definition knot_ln (n : nat) : Prop :=
   (forall p, spec (get_pattern bs n) p LP ET) /\
-  (forall block st qs p, inv block st qs p -> spec (pattern_loop bs n st) p (fun st' _ => exists qs', fin block st' qs') ET) /\
+  (forall block pend st qs p, inv block pend st qs p -> spec (pattern_loop bs n st) p (fun st' _ => exists qs', fin block st' qs') ET) /\
   (forall p, spec (get_placeable bs n) p (fun e _ => LE e) ET) /\
   (forall p, spec (get_expression bs n) p (fun e _ => LE e) ET) /\
   (forall p, spec (get_variants bs n) p (fun vs _ => Forall LV vs) ET) /\
@@ -846,8 +1014,8 @@ Qed.
 
 Lemma inv_init (block : bool) r q : r = (if block then LineStart else InitialLineStart) ->
   (if block then no_blank_line_head (rest bs q)
-   else forall b, byte_at bs q = Some b -> N.eqb b 32 = false /\ N.eqb b 10 = false) ->
-  inv block (PState [] 0 None None r) [] q.
+   else forall b, byte_at bs q = Some b -> N.eqb b 32 = false /\ N.eqb b 10 = false /\ N.eqb b 13 = false) ->
+  inv block false (PState [] 0 None None r) [] q.
 Proof.
   intros -> Hs. constructor; cbn [elements role n_elements common_indent last_non_blank pds0 map rev].
   - constructor.
@@ -860,6 +1028,7 @@ Proof.
   - exact Logic.I.
   - intros [].
   - intros _. exact Hs.
+  - discriminate.
 Qed.
 
 
@@ -894,6 +1063,15 @@ Proof.
   unfold byte_at in Hb. rewrite (skipn_uncons bs (k + p)), Hb in H. cbn in H. discriminate H.
 Qed.
 
+Lemma blank_head_not_cr p k : k = scan_while is_space (rest bs p) -> byte_at bs (k + p) = Some 13%N -> ~ no_blank_line_head (rest bs p).
+Proof.
+  intros Ek Hb H. unfold no_blank_line_head in H. rewrite <- Ek in H. unfold rest in H. rewrite skipn_add in H.
+  unfold byte_at in Hb. pose proof (nlc_at _ Hb) as Hb2. rewrite (skipn_uncons bs (k + p)), Hb, (skipn_uncons bs (S (k + p))), Hb2 in H. cbn in H. discriminate H.
+Qed.
+
+Lemma scan_lf0 p : byte_at bs p = Some 10%N -> scan_while is_space (rest bs p) = 0.
+Proof. intros E. unfold rest. unfold byte_at in E. rewrite (skipn_uncons bs p), E. reflexivity. Qed.
+
 Lemma knot_ln_all : finish_goal -> forall n, knot_ln n.
 Proof.
   intros Hfinish.
@@ -907,47 +1085,80 @@ Proof.
       unfold skip_eol in Heol. destruct (eol_len (rest bs (k + p))) as [|e] eqn:Ee.
       * injection Heol as <- <-. eapply spec_bind with (Q1 := fun r q => r = InitialLineStart /\ q = k + p) (E1 := ET);
           [apply spec_ret; auto | intros; exact Logic.I|]. intros r q [-> ->].
-        eapply spec_bind; [apply (IH2 false _ [] (k + p)) | intros; exact Logic.I|].
-        -- apply inv_init; [reflexivity|]. intros b Hb. split.
+        eapply spec_bind; [apply (IH2 false false _ [] (k + p)) | intros; exact Logic.I|].
+        -- apply inv_init; [reflexivity|]. intros b Hb. split; [|split].
            ++ subst k. apply (scan_while_stop' is_space (rest bs p) b). unfold rest. rewrite nth_error_skipn_add, Nat.add_comm. exact Hb.
            ++ unfold rest in Ee. unfold byte_at in Hb. rewrite (skipn_uncons bs (k + p)), Hb in Ee. cbn [eol_len] in Ee.
               unfold c_lf in Ee. destruct (N.eqb b 10); [discriminate Ee | reflexivity].
+           ++ destruct (N.eqb b 13) eqn:E13; [|reflexivity]. exfalso. apply N.eqb_eq in E13. subst b.
+              unfold rest in Ee. unfold byte_at in Hb. pose proof (nlc_at _ Hb) as Hn.
+              rewrite (skipn_uncons bs (k + p)), Hb, (skipn_uncons bs (S (k + p))), Hn in Ee. cbn in Ee. discriminate Ee.
         -- intros st q [qs Hf]. apply (Hfinish false st qs q Hf).
       * injection Heol as <- <-.
         eapply spec_bind with (Q1 := fun r q => r = LineStart /\ no_blank_line_head (rest bs q)) (E1 := ET); [|intros; exact Logic.I|].
         -- eapply spec_bind with (Q1 := fun _ q => no_blank_line_head (rest bs q)) (E1 := ET);
              [apply st_skip_blank_block | intros; exact Logic.I | intros c q Hq; apply spec_ret; auto].
-        -- intros r q [-> Hq]. eapply spec_bind; [apply (IH2 true _ [] q) | intros; exact Logic.I|].
+        -- intros r q [-> Hq]. eapply spec_bind; [apply (IH2 true false _ [] q) | intros; exact Logic.I|].
            ++ apply inv_init; [reflexivity | exact Hq].
            ++ intros st q' [qs Hf]. apply (Hfinish true st qs q' Hf).
     + (* pattern_loop *)
-      intros block st qs p Hinv. rewrite pattern_loop_S.
+      intros block pend st qs p Hinv. rewrite pattern_loop_S.
       eapply spec_bind; [apply sp_get_ptr | intros ? ? []|]. intros p0 q0 [-> ->].
       destruct (Nat.ltb p (length_ bs)) eqn:Hlt; cbn [negb];
-        [|apply spec_ret; exists qs; apply (inv_fin _ _ _ _ Hinv); intros _; apply Nat.ltb_ge in Hlt; exact Hlt].
+        [|apply spec_ret; exists qs; apply (inv_fin _ _ _ _ _ Hinv); intros _; apply Nat.ltb_ge in Hlt; exact Hlt].
       apply Nat.ltb_lt in Hlt. unfold length_ in Hlt.
       eapply spec_bind; [apply sp_take_byte_if | intros ? ? []|]. intros brace q1 Hbrace.
       destruct Hbrace as [(-> & -> & Hb) | (-> & -> & Hb)].
-      * useb (IH3 (S p)). intros e q2 He. eapply (IH2 block). apply (inv_push_place block st qs p e q2 Hinv He).
+      * assert (pend = false) as ->.
+        { destruct pend; [|reflexivity]. destruct (i_pend _ _ _ _ _ Hinv eq_refl) as (H10 & _). unfold is_byte_at in Hb. rewrite H10 in Hb. discriminate Hb. }
+        useb (IH3 (S p)). intros e q2 He. eapply (IH2 block false). apply (inv_push_place block st qs p e q2 Hinv He).
       * assert (Hno123 : byte_at bs p <> Some 123%N).
         { unfold is_byte_at in Hb. intros E. rewrite E in Hb. discriminate Hb. }
-        assert (Hnp : needs_place (pds0 qs) -> False).
-        { intros H. destruct (i_pos _ _ _ _ Hinv H) as [E | [E _]]; [exact (Hno123 E) | lia]. }
         eapply spec_bind; [apply sp_get_ptr | intros ? ? []|]. intros ss q2 [-> ->].
         useb (st_prologue (role st) p Hlt). intros pro q3 Hpro.
-        destruct pro as [k|]; [|apply spec_ret; exists qs; apply (inv_fin _ _ _ _ Hinv); intros Hn; destruct (Hnp Hn)].
+        destruct pend.
+        { (* on the LF of a CR LF line end: it becomes an element of its own *)
+          destruct (i_pend _ _ _ _ _ Hinv eq_refl) as (H10 & Hend & Hqs).
+          assert (Els : is_line_start (role st) = true) by (rewrite (i_role _ _ _ _ _ Hinv); apply orb_true_r).
+          destruct pro as [k|]; [|exfalso; apply (Hpro Els H10)].
+          destruct Hpro as (-> & Hkp & Hpro). rewrite Els in Hpro. destruct Hpro as (Ek & _).
+          rewrite (scan_lf0 p H10) in Ek. subst k. cbn [Nat.add] in *.
+          useb (st_text_slice p ltac:(lia)). intros [[[start end_] nb] term] q4 Hsl.
+          cbn [slice_post] in Hsl. destruct Hsl as (-> & -> & text & Hnolf & Htcr & -> & Hterm).
+          assert (Htext : text = []).
+          { assert (Hseg0 : exists W, seg p end_ (text ++ W)).
+            { destruct term; [eexists; exact Hterm | | |]; exists []; rewrite app_nil_r; apply Hterm. }
+            destruct Hseg0 as [W HW]. destruct text as [|c0 w]; [reflexivity|]. exfalso.
+            destruct (seg_first_no_lf _ _ _ _ _ HW Hnolf H10 ltac:(discriminate)) as (t & _ & Hc). discriminate Hc. }
+          subst text. cbn [app] in Hterm. change (is_nonblank []) with false.
+          assert (Hend0 : forall e, seg p e [] -> e = p).
+          { intros e He. pose proof (seg_length _ _ _ He) as Hl. cbn [length] in Hl. destruct He as (H1 & _). lia. }
+          destruct term.
+          - pose proof (seg_length _ _ _ Hterm) as Hlen. cbn [length] in Hlen. destruct Hterm as (Ht1 & Ht2 & Ht3).
+            assert (Eend : end_ = S p) by lia. subst end_.
+            unfold text_step. cbn [fst snd]. rewrite Els.
+            replace (Nat.eqb p (S p)) with false by (symmetry; apply Nat.eqb_neq; lia). cbn [negb andb orb].
+            cbn [elements n_elements last_non_blank common_indent role].
+            eapply (IH2 block false). apply (inv_push_eol block st qs p Hinv).
+          - exfalso. destruct Hterm as (Hseg & H13 & _). rewrite (Hend0 _ Hseg), H10 in H13. discriminate H13.
+          - exfalso. destruct Hterm as (Hseg & H123). rewrite (Hend0 _ Hseg) in H123. exact (Hno123 H123).
+          - exfalso. destruct Hterm as (Hseg & Hl). rewrite (Hend0 _ Hseg) in Hl. lia. }
+        assert (Hnp : needs_place (pds0 qs) -> False).
+        { intros H. destruct (i_pos _ _ _ _ _ Hinv H) as [E | [[E _] | [E _]]]; [exact (Hno123 E) | lia | discriminate E]. }
+        assert (Hrole0 : is_line_start (role st) = end_ls block (pds0 qs)) by (rewrite (i_role _ _ _ _ _ Hinv); apply orb_false_r).
+        destruct pro as [k|]; [|apply spec_ret; exists qs; apply (inv_fin _ _ _ _ _ Hinv); intros Hn; destruct (Hnp Hn)].
         destruct Hpro as (-> & Hkp & Hpro).
         useb (st_text_slice (k + p) ltac:(lia)). intros [[[start end_] nb] term] q4 Hsl.
-        cbn [slice_post] in Hsl. destruct Hsl as (-> & -> & text & Hnolf & -> & Hterm).
+        cbn [slice_post] in Hsl. destruct Hsl as (-> & -> & text & Hnolf & Htcr & -> & Hterm).
         destruct (is_line_start (role st)) eqn:Els.
         -- (* at a line start *)
            destruct Hpro as (Ek & Hsp & b & Hbk & Hb32 & Hbc & Hb0).
            assert (Hblock : qs = [] -> block = true).
-           { intros ->. pose proof (i_init _ _ _ _ Hinv eq_refl) as Hr. destruct block; [reflexivity|]. rewrite Hr in Els. discriminate Els. }
+           { intros ->. pose proof (i_init _ _ _ _ _ Hinv eq_refl) as Hr. destruct block; [reflexivity|]. rewrite Hr in Els. discriminate Els. }
            destruct text as [|c0 w].
            ++ (* blank: a blank line, or the indentation of a placeable *)
               cbn [app] in Hterm. change (is_nonblank []) with false.
-              destruct term; [| destruct Hterm | |].
+              destruct term.
               ** (* blank line *)
                  pose proof (seg_length _ _ _ Hterm) as Hlen. cbn [length] in Hlen. destruct Hterm as (Ht1 & Ht2 & Ht3).
                  assert (Eend : end_ = S (k + p)) by lia. subst end_.
@@ -955,43 +1166,55 @@ Proof.
                  unfold text_step. cbn [fst snd]. rewrite Els.
                  replace (Nat.eqb (k + p) (S (k + p))) with false by (symmetry; apply Nat.eqb_neq; lia). cbn [negb andb orb].
                  cbn [elements n_elements last_non_blank common_indent role].
-                 apply (IH2 block _ (qs ++ [QText true 0 [] true]) (S (k + p))).
-                 pose proof (inv_push_text block st qs p (k + p) (S (k + p)) 0 0 [] true (common_indent st) LineStart (S (k + p)) Hinv) as Hpush.
+                 apply (IH2 block false _ (qs ++ [QText true 0 [] true]) (S (k + p))).
+                 pose proof (inv_push_text block st qs p (k + p) (S (k + p)) 0 0 [] true (common_indent st) LineStart false (S (k + p)) Hinv) as Hpush.
                  rewrite Els in Hpush. change (is_nonblank []) with false in Hpush. apply Hpush; clear Hpush.
                  --- cbn [sp repeat app lfb]. repeat split; assumption.
                  --- reflexivity.
                  --- discriminate.
+                 --- intros ? [].
                  --- cbn [pds_ok]. repeat split; try reflexivity. left; auto.
-                 --- intros Eqs. exfalso. pose proof (i_start _ _ _ _ Hinv Eqs) as Hst. rewrite (Hblock Eqs) in Hst.
+                 --- intros Eqs. exfalso. pose proof (i_start _ _ _ _ _ Hinv Eqs) as Hst. rewrite (Hblock Eqs) in Hst.
                      apply (blank_head_not p k Ek Hb10 Hst).
                  --- discriminate.
                  --- exact Hnp.
-                 --- cbn [counted]. rewrite app_nil_r. apply (i_ci _ _ _ _ Hinv).
+                 --- cbn [counted]. rewrite app_nil_r. apply (i_ci _ _ _ _ _ Hinv).
                  --- reflexivity.
+                 --- discriminate.
+              ** (* white space and a CR LF line end: nothing is pushed, the LF is the blank line of the next round *)
+                 destruct Hterm as (Hseg & H13 & H10'). pose proof (seg_length _ _ _ Hseg) as Hlen. cbn [length] in Hlen. destruct Hseg as (Ht1 & Ht2 & _).
+                 assert (Eend : end_ = k + p) by lia. subst end_.
+                 unfold text_step. cbn [fst snd]. rewrite Els, Nat.eqb_refl. cbn [negb andb].
+                 cbn [elements n_elements last_non_blank common_indent role].
+                 eapply (IH2 block false). apply (inv_move block st qs p false (S (k + p)) Hinv Hnp); [|exact Els].
+                 intros Eqs. pose proof (i_start _ _ _ _ _ Hinv Eqs) as Hst. rewrite (Hblock Eqs) in Hst.
+                 apply (blank_head_not_cr p k Ek H13 Hst).
               ** (* the indentation of a placeable *)
                  destruct Hterm as [Hseg H123]. pose proof (seg_length _ _ _ Hseg) as Hlen. cbn [length] in Hlen. destruct Hseg as (Ht1 & Ht2 & _).
                  assert (Eend : end_ = k + p) by lia. subst end_.
                  unfold text_step. cbn [fst snd]. rewrite Els, Nat.eqb_refl. cbn [negb andb].
                  cbn [elements n_elements last_non_blank common_indent role].
-                 apply (IH2 block _ (qs ++ [QText true k [] false]) (k + p)).
+                 apply (IH2 block false _ (qs ++ [QText true k [] false]) (k + p)).
                  pose proof (inv_push_text block st qs p p (k + p) k k [] false
-                               (Some (match common_indent st with None => k | Some c => Nat.min c k end)) Continuation (k + p) Hinv) as Hpush.
+                               (Some (match common_indent st with None => k | Some c => Nat.min c k end)) Continuation false (k + p) Hinv) as Hpush.
                  rewrite Els in Hpush. change (is_nonblank []) with false in Hpush. apply Hpush; clear Hpush.
                  --- cbn [app lfb]. rewrite app_nil_r. exact Hsp.
                  --- reflexivity.
                  --- discriminate.
+                 --- intros ? [].
                  --- cbn [pds_ok]. repeat split; try reflexivity. right; reflexivity.
                  --- intros Eqs. cbn [first_ok]. split; [apply (Hblock Eqs) | reflexivity].
                  --- intros _. left. exact H123.
                  --- exact Hnp.
-                 --- cbn [counted]. apply ci_rel_min', (i_ci _ _ _ _ Hinv).
+                 --- cbn [counted]. apply ci_rel_min', (i_ci _ _ _ _ _ Hinv).
                  --- reflexivity.
+                 --- discriminate.
               ** (* end of input right after the indentation: impossible, a byte is there *)
                  destruct Hterm as [Hseg Hlen']. pose proof (seg_length _ _ _ Hseg) as Hlen. cbn [length] in Hlen. destruct Hseg as (Ht1 & Ht2 & _). lia.
            ++ (* text at a line start *)
               assert (Hc0 : c0 = b /\ N.eqb b 10 = false).
               { assert (Hseg0 : exists W, seg (k + p) end_ ((c0 :: w) ++ W)).
-                { destruct term; [eexists; exact Hterm | destruct Hterm | exists []; rewrite app_nil_r; apply Hterm | exists []; rewrite app_nil_r; apply Hterm]. }
+                { destruct term; [eexists; exact Hterm | | |]; exists []; rewrite app_nil_r; apply Hterm. }
                 destruct Hseg0 as [W HW]. destruct (seg_first_no_lf _ _ _ _ _ HW Hnolf Hbk ltac:(discriminate)) as (t & Et & H10).
                 injection Et as -> _. auto. }
               destruct Hc0 as [-> Hb10].
@@ -1000,66 +1223,86 @@ Proof.
               assert (Hhead : head_ok b).
               { split; [exact Hb32 | split; [exact Hb10|]]. unfold is_byte_pattern_continuation in Hbc. apply negb_true_iff in Hbc.
                 destruct (N.eqb b 46), (N.eqb b 91), (N.eqb b 42); try reflexivity; cbn in Hbc; try discriminate Hbc; destruct (N.eqb b 125); discriminate Hbc. }
-              assert (Hgen : forall lf role', seg (k + p) end_ ((b :: w) ++ lfb lf) -> is_line_start role' = lf ->
-                        (lf = false -> byte_at bs end_ = Some 123%N \/ (length bs <= end_ /\ b :: w <> [])) -> k + p <> end_ ->
-                        inv block (PState (PHText p end_ k (role st) :: elements st) (S (n_elements st)) (Some (n_elements st))
+              assert (Hgen : forall lf role' (pend' : bool) q', seg (k + p) end_ ((b :: w) ++ lfb lf) -> is_line_start role' = lf || pend' ->
+                        (lf = false -> byte_at bs q' = Some 123%N \/ (length bs <= q' /\ b :: w <> []) \/ (pend' = true /\ b :: w <> [])) ->
+                        (pend' = true -> byte_at bs q' = Some 10%N /\ lf = false) ->
+                        inv block pend' (PState (PHText p end_ k (role st) :: elements st) (S (n_elements st)) (Some (n_elements st))
                                           (match common_indent st with Some c => if Nat.ltb k c then Some k else Some c | None => Some k end) role')
-                            (qs ++ [QText true k (b :: w) lf]) end_).
-              { intros lf role' Hseg Hrole Hpos _.
+                            (qs ++ [QText true k (b :: w) lf]) q').
+              { intros lf role' pend' q' Hseg Hrole Hpos Hpend.
                 pose proof (inv_push_text block st qs p p end_ k k (b :: w) lf
-                              (match common_indent st with Some c => if Nat.ltb k c then Some k else Some c | None => Some k end) role' end_ Hinv) as Hpush.
+                              (match common_indent st with Some c => if Nat.ltb k c then Some k else Some c | None => Some k end) role' pend' q' Hinv) as Hpush.
                 rewrite Els, Hnb in Hpush. apply Hpush; clear Hpush.
                 - apply (seg_app p (k + p) end_ (sp k) _ Hsp Hseg).
                 - reflexivity.
                 - discriminate.
+                - exact Htcr.
                 - cbn [pds_ok]. split; [reflexivity|]. split; [exact Hnolf|]. split; [exact Hhead|]. split; [intros _; exact Logic.I | exact Logic.I].
                 - intros _. cbn [first_ok]. split; [exact Hb32 | exact Hb10].
                 - exact Hpos.
                 - exact Hnp.
-                - cbn [counted]. apply ci_rel_min, (i_ci _ _ _ _ Hinv).
-                - exact Hrole. }
+                - cbn [counted]. apply ci_rel_min, (i_ci _ _ _ _ _ Hinv).
+                - exact Hrole.
+                - exact Hpend. }
               assert (Hne : forall lf, seg (k + p) end_ ((b :: w) ++ lfb lf) -> Nat.eqb (k + p) end_ = false).
               { intros lf Hseg. apply Nat.eqb_neq. pose proof (seg_length _ _ _ Hseg) as Hl. rewrite app_length in Hl. cbn [length] in Hl. destruct Hseg as (H1 & _). lia. }
               unfold text_step. cbn [fst snd]. rewrite Els.
-              destruct term; [| destruct Hterm | |].
+              destruct term.
               ** rewrite (Hne true Hterm). cbn [negb andb orb elements n_elements last_non_blank common_indent role].
-                 eapply (IH2 block). apply (Hgen true LineStart Hterm eq_refl); [discriminate|]. apply Nat.eqb_neq, (Hne true Hterm).
+                 eapply (IH2 block false). apply (Hgen true LineStart false _ Hterm eq_refl); discriminate.
+              ** destruct Hterm as (Hseg & H13 & H10'). assert (Hseg' : seg (k + p) end_ ((b :: w) ++ lfb false)) by (cbn [lfb]; rewrite app_nil_r; exact Hseg).
+                 rewrite (Hne false Hseg'). cbn [negb andb orb elements n_elements last_non_blank common_indent role].
+                 eapply (IH2 block true). apply (Hgen false LineStart true _ Hseg' eq_refl); [intros _; right; right; split; [reflexivity | discriminate] | intros _; split; [exact H10' | reflexivity]].
               ** destruct Hterm as [Hseg H123]. assert (Hseg' : seg (k + p) end_ ((b :: w) ++ lfb false)) by (cbn [lfb]; rewrite app_nil_r; exact Hseg).
                  rewrite (Hne false Hseg'). cbn [negb andb orb elements n_elements last_non_blank common_indent role].
-                 eapply (IH2 block). apply (Hgen false Continuation Hseg' eq_refl); [intros _; left; exact H123|]. apply Nat.eqb_neq, (Hne false Hseg').
+                 eapply (IH2 block false). apply (Hgen false Continuation false _ Hseg' eq_refl); [intros _; left; exact H123 | discriminate].
               ** destruct Hterm as [Hseg Hlen']. assert (Hseg' : seg (k + p) end_ ((b :: w) ++ lfb false)) by (cbn [lfb]; rewrite app_nil_r; exact Hseg).
                  rewrite (Hne false Hseg'). cbn [negb andb orb elements n_elements last_non_blank common_indent role].
-                 eapply (IH2 block). apply (Hgen false Continuation Hseg' eq_refl); [intros _; right; split; [exact Hlen' | discriminate]|]. apply Nat.eqb_neq, (Hne false Hseg').
+                 eapply (IH2 block false). apply (Hgen false Continuation false _ Hseg' eq_refl); [intros _; right; left; split; [exact Hlen' | discriminate] | discriminate].
         -- (* inside a line *)
            subst k. cbn [Nat.add] in *.
-           assert (Hfirstb : qs = [] -> forall c, byte_at bs p = Some c -> N.eqb c 32 = false /\ N.eqb c 10 = false).
-           { intros Eqs. pose proof (i_start _ _ _ _ Hinv Eqs) as Hst. pose proof (i_init _ _ _ _ Hinv Eqs) as Hr.
+           assert (Hfirstb : qs = [] -> forall c, byte_at bs p = Some c -> N.eqb c 32 = false /\ N.eqb c 10 = false /\ N.eqb c 13 = false).
+           { intros Eqs. pose proof (i_start _ _ _ _ _ Hinv Eqs) as Hst. pose proof (i_init _ _ _ _ _ Hinv Eqs) as Hr.
              destruct block; [rewrite Hr in Els; discriminate Els | exact Hst]. }
-           assert (Hgen : forall lf role', seg p end_ (text ++ lfb lf) -> is_line_start role' = lf -> (text = [] -> lf = true) ->
-                     (lf = false -> byte_at bs end_ = Some 123%N \/ (length bs <= end_ /\ text <> [])) ->
-                     inv block (PState (PHText p end_ 0 (role st) :: elements st) (S (n_elements st))
+           assert (Hgen : forall lf role' (pend' : bool) q', seg p end_ (text ++ lfb lf) -> is_line_start role' = lf || pend' -> (text = [] -> lf = true) ->
+                     (lf = false -> byte_at bs q' = Some 123%N \/ (length bs <= q' /\ text <> []) \/ (pend' = true /\ text <> [])) ->
+                     (pend' = true -> byte_at bs q' = Some 10%N /\ lf = false) ->
+                     inv block pend' (PState (PHText p end_ 0 (role st) :: elements st) (S (n_elements st))
                                        (if is_nonblank text then Some (n_elements st) else last_non_blank st) (common_indent st) role')
-                         (qs ++ [QText false 0 text lf]) end_).
-           { intros lf role' Hseg Hrole Hempty Hpos.
-             pose proof (inv_push_text block st qs p p end_ 0 0 text lf (common_indent st) role' end_ Hinv) as Hpush.
+                         (qs ++ [QText false 0 text lf]) q').
+           { intros lf role' pend' q' Hseg Hrole Hempty Hpos Hpend.
+             pose proof (inv_push_text block st qs p p end_ 0 0 text lf (common_indent st) role' pend' q' Hinv) as Hpush.
              rewrite Els in Hpush. apply Hpush; clear Hpush.
              - cbn [sp repeat app]. exact Hseg.
              - discriminate.
              - reflexivity.
+             - exact Htcr.
              - cbn [pds_ok]. repeat split; try reflexivity; [exact Hnolf | exact Hempty].
              - intros Eqs. cbn [first_ok]. destruct text as [|c w].
-               + exfalso. specialize (Hempty eq_refl). rewrite Hempty in Hseg. cbn [app lfb] in Hseg. destruct (Hfirstb Eqs 10%N (seg_head _ _ _ _ Hseg)) as [_ H]. discriminate H.
-               + apply (Hfirstb Eqs c). cbn [app] in Hseg. apply (seg_head _ _ _ _ Hseg).
+               + exfalso. specialize (Hempty eq_refl). rewrite Hempty in Hseg. cbn [app lfb] in Hseg. destruct (Hfirstb Eqs 10%N (seg_head _ _ _ _ Hseg)) as (_ & H & _). discriminate H.
+               + cbn [app] in Hseg. destruct (Hfirstb Eqs c (seg_head _ _ _ _ Hseg)) as (H1 & H2 & _). split; assumption.
              - exact Hpos.
              - exact Hnp.
-             - destruct text; cbn [counted]; rewrite app_nil_r; apply (i_ci _ _ _ _ Hinv).
-             - exact Hrole. }
+             - destruct text; cbn [counted]; rewrite app_nil_r; apply (i_ci _ _ _ _ _ Hinv).
+             - exact Hrole.
+             - exact Hpend. }
            unfold text_step. cbn [fst snd]. rewrite Els. cbn [negb andb orb].
-           destruct term; [| destruct Hterm | |].
+           destruct term.
            ++ assert (Hne : Nat.eqb p end_ = false).
               { apply Nat.eqb_neq. pose proof (seg_length _ _ _ Hterm) as Hl. rewrite app_length in Hl. cbn [length] in Hl. destruct Hterm as (H1 & _). lia. }
               rewrite Hne. cbn [negb elements n_elements last_non_blank common_indent role].
-              eapply (IH2 block). apply (Hgen true LineStart Hterm eq_refl); [auto | discriminate].
+              eapply (IH2 block false). apply (Hgen true LineStart false _ Hterm eq_refl); [auto | discriminate | discriminate].
+           ++ (* a CR LF line end inside a line *)
+              destruct Hterm as (Hseg & H13 & H10'). destruct text as [|c w].
+              ** (* nothing in front of it: nothing is pushed *)
+                 pose proof (seg_length _ _ _ Hseg) as Hl. cbn [length] in Hl. destruct Hseg as (H1 & H2 & _).
+                 assert (end_ = p) by lia. subst end_. rewrite Nat.eqb_refl. cbn [negb elements n_elements last_non_blank common_indent role].
+                 eapply (IH2 block true). apply (inv_move block st qs p true (S p) Hinv Hnp); [|split; [exact H10' | rewrite <- Hrole0; reflexivity]].
+                 intros Eqs. destruct (Hfirstb Eqs _ H13) as (_ & _ & H). discriminate H.
+              ** assert (Hne : Nat.eqb p end_ = false).
+                 { apply Nat.eqb_neq. pose proof (seg_length _ _ _ Hseg) as Hl. cbn [length] in Hl. destruct Hseg as (H1 & _). lia. }
+                 rewrite Hne. cbn [negb elements n_elements last_non_blank common_indent role].
+                 eapply (IH2 block true). apply (Hgen false LineStart true); [cbn [lfb]; rewrite app_nil_r; exact Hseg | reflexivity | discriminate | intros _; right; right; split; [reflexivity | discriminate] | intros _; split; [exact H10' | reflexivity]].
            ++ destruct Hterm as [Hseg H123]. destruct text as [|c w].
               ** (* an empty slice in front of a brace: the brace was not there *)
                  exfalso. pose proof (seg_length _ _ _ Hseg) as Hl. cbn [length] in Hl. destruct Hseg as (H1 & H2 & _).
@@ -1067,13 +1310,13 @@ Proof.
               ** assert (Hne : Nat.eqb p end_ = false).
                  { apply Nat.eqb_neq. pose proof (seg_length _ _ _ Hseg) as Hl. cbn [length] in Hl. destruct Hseg as (H1 & _). lia. }
                  rewrite Hne. cbn [negb elements n_elements last_non_blank common_indent role].
-                 eapply (IH2 block). apply (Hgen false Continuation); [cbn [lfb]; rewrite app_nil_r; exact Hseg | reflexivity | discriminate | intros _; left; exact H123].
+                 eapply (IH2 block false). apply (Hgen false Continuation false); [cbn [lfb]; rewrite app_nil_r; exact Hseg | reflexivity | discriminate | intros _; left; exact H123 | discriminate].
            ++ destruct Hterm as [Hseg Hlen']. destruct text as [|c w].
               ** exfalso. pose proof (seg_length _ _ _ Hseg) as Hl. cbn [length] in Hl. destruct Hseg as (H1 & H2 & _). lia.
               ** assert (Hne : Nat.eqb p end_ = false).
                  { apply Nat.eqb_neq. pose proof (seg_length _ _ _ Hseg) as Hl. cbn [length] in Hl. destruct Hseg as (H1 & _). lia. }
                  rewrite Hne. cbn [negb elements n_elements last_non_blank common_indent role].
-                 eapply (IH2 block). apply (Hgen false Continuation); [cbn [lfb]; rewrite app_nil_r; exact Hseg | reflexivity | discriminate | intros _; right; split; [exact Hlen' | discriminate]].
+                 eapply (IH2 block false). apply (Hgen false Continuation false); [cbn [lfb]; rewrite app_nil_r; exact Hseg | reflexivity | discriminate | intros _; right; left; split; [exact Hlen' | discriminate] | discriminate].
     + (* get_placeable *)
       intros p. cbn [get_placeable]. fold_knot bs.
       skipn u1 q1. useb (IH4 q1). intros e q2 He. skipb. skipb.
@@ -1194,7 +1437,7 @@ Proof. rewrite sp_add. f_equal. lia. Qed.
 
 (* ---- the finished elements ---- *)
 Definition trim_pd (d : pd) : pd :=
-  match d with PdText ls own body _ => PdText ls own (trim_end body) false | PdPlace l => PdPlace l end.
+  match d with PdText ls own body _ => PdText ls own (trim_end body) false | PdPlace l => PdPlace l | PdEol => PdEol end.
 Fixpoint pds_at (c lnb i : nat) (qs : list qd) : list pd :=
   match qs with
   | [] => []
@@ -1222,7 +1465,7 @@ Proof.
 Qed.
 
 Lemma st_finish_element lnb ci i ph q p : ph_q ph q -> q_fits ci q ->
-  (Nat.eqb lnb i = true -> match q with QText _ _ body _ => trim_end body <> [] | _ => True end) ->
+  (Nat.eqb lnb i = true -> match q with QText _ _ body _ => trim_end body <> [] | QPlace _ => True | QEol => False end) ->
   spec (finish_element bs lnb ci i ph) p
        (fun r _ => let d := if Nat.eqb lnb i then trim_pd (to_pd (cnum ci) q) else to_pd (cnum ci) q in
                    match r with
@@ -1230,9 +1473,16 @@ Lemma st_finish_element lnb ci i ph q p : ph_q ph q -> q_fits ci q ->
                    | None => pd_bytes d = [] /\ Nat.eqb lnb i = false
                    end) ET.
 Proof.
-  intros Hq Hfit Htrim. destruct ph as [e | s e ind role]; destruct q as [ls qi body lf | l]; cbn [ph_q] in Hq; try (exfalso; exact Hq).
+  intros Hq Hfit Htrim. destruct ph as [e | s e ind role]; destruct q as [ls qi body lf | l |]; cbn [ph_q] in Hq; try (exfalso; exact Hq).
+  3:{ (* the LF of a CR LF line end *)
+    destruct Hq as (-> & Hseg & ->). unfold finish_element. cbn [is_line_start].
+    assert (Hs : (match ci with Some c0 => s + Nat.min 0 c0 | None => s + 0 end) = s) by (destruct ci; cbn [Nat.min]; lia).
+    rewrite Hs. pose proof (seg_length _ _ _ Hseg) as Hlen. cbn [length] in Hlen. destruct (Nat.eqb s e) eqn:Ee; [apply Nat.eqb_eq in Ee; destruct Hseg as (H1 & _); lia|].
+    eapply spec_bind; [apply sp_source_slice | intros ? ? []|]. intros v q0 [-> Hv]. apply spec_ret.
+    rewrite (seg_slice _ _ _ Hseg v Hv). destruct (Nat.eqb lnb i) eqn:El; [destruct (Htrim eq_refl)|].
+    cbn [to_pd pd_bytes el_bytes el_LE]. split; [reflexivity | split; [discriminate | discriminate]]. }
   - unfold finish_element. apply spec_ret. destruct (Nat.eqb lnb i); cbn [to_pd trim_pd pd_bytes el_bytes el_LE el_trimmed]; (split; [reflexivity | split; [exact Hq | intros _; exact Logic.I]]).
-  - destruct Hq as (Els & Hseg & Hi1 & Hi2). unfold finish_element. rewrite <- Els.
+  - destruct Hq as (Els & Hseg & Hi1 & Hi2 & _). unfold finish_element. rewrite <- Els.
     set (c := cnum ci).
     set (s' := if ls then match ci with Some c0 => s + Nat.min ind c0 | None => s + ind end else s).
     assert (Hseg' : seg s' e (sp (qi - c) ++ body ++ lfb lf)).
@@ -1260,7 +1510,7 @@ Proof.
 Qed.
 
 Lemma st_finish_elements lnb ci : forall phs qs i p, Forall2 ph_q phs qs -> Forall (q_fits ci) qs ->
-  (forall q, nth_error qs (lnb - i) = Some q -> i <= lnb -> match q with QText _ _ body _ => trim_end body <> [] | _ => True end) ->
+  (forall q, nth_error qs (lnb - i) = Some q -> i <= lnb -> match q with QText _ _ body _ => trim_end body <> [] | QPlace _ => True | QEol => False end) ->
   spec (finish_elements bs lnb ci i phs) p
        (fun els _ => sk_els els = sk_of (pds_at (cnum ci) lnb i qs) /\ Forall el_LE els /\
                      (S lnb = i + length phs -> phs <> [] -> match rev els with x :: _ => el_trimmed x | [] => False end)) ET.
@@ -1295,13 +1545,14 @@ Qed.
 (* ---- the description of the finished elements satisfies the conditions of Part A ---- *)
 Lemma pds_ok_shift c qs : forall ls, pds_ok ls (pds0 qs) -> pds_ok ls (map (to_pd c) qs).
 Proof.
-  induction qs as [|q r IH]; intros ls H; [exact Logic.I|]. destruct q as [l qi body lf | l]; cbn [pds0 map to_pd pds_ok] in *.
+  induction qs as [|q r IH]; intros ls H; [exact Logic.I|]. destruct q as [l qi body lf | l |]; cbn [pds0 map to_pd pds_ok] in *.
   - destruct H as (El & Hb & Hcase & Hnext & Hr). split; [exact El|]. split; [exact Hb|]. split; [|split].
     + destruct ls.
       * destruct body; [|exact Hcase]. destruct Hcase as [[H1 H2] | H1]; [left; split; [exact H1 | lia] | right; exact H1].
       * destruct Hcase as [H1 H2]. split; [lia | exact H2].
-    + intros Hlf. specialize (Hnext Hlf). destruct r as [|[? ? ? ?|?] r']; cbn [map to_pd] in *; exact Hnext.
+    + intros Hlf. specialize (Hnext Hlf). destruct r as [|[? ? ? ?|?|] r']; cbn [map to_pd] in *; exact Hnext.
     + apply IH, Hr.
+  - destruct H as [El Hr]. split; [exact El | apply IH, Hr].
   - destruct H as [El Hr]. split; [exact El | apply IH, Hr].
 Qed.
 
@@ -1311,13 +1562,14 @@ Lemma pds_ok_cut X : forall ls d Y d', pds_ok ls (X ++ d :: Y) -> same_kind d d'
   (forall ls', pds_ok ls' (d :: Y) -> pds_ok ls' [d']) -> pds_ok ls (X ++ [d']).
 Proof.
   induction X as [|x X IH]; intros ls d Y d' H Hk Hd; [apply Hd, H|].
-  destruct x as [l own body lf | l]; cbn [app pds_ok] in *.
+  destruct x as [l own body lf | l |]; cbn [app pds_ok] in *.
   - destruct H as (El & Hb & Hcase & Hnext & Hr). split; [exact El|]. split; [exact Hb|]. split; [exact Hcase|]. split.
     + intros Hlf. specialize (Hnext Hlf). destruct X as [|y X']; cbn [app] in *.
       * destruct d, d'; try destruct Hk; try exact Logic.I; exact Hnext.
       * exact Hnext.
     + apply (IH lf d Y d' Hr Hk Hd).
   - destruct H as [El Hr]. split; [exact El | apply (IH false d Y d' Hr Hk Hd)].
+  - destruct H as [El Hr]. split; [exact El | apply (IH true d Y d' Hr Hk Hd)].
 Qed.
 
 Lemma ws_false c : N.eqb c 32 = false -> N.eqb c 10 = false -> N.eqb c 13 = false -> matches_fluent_ws c = false.
@@ -1347,7 +1599,7 @@ Qed.
 
 Lemma counted_shift c qs : counted (map (to_pd c) qs) = map (fun x => x - c) (counted (pds0 qs)).
 Proof.
-  induction qs as [|q r IH]; [reflexivity|]. destruct q as [[|] qi [|c0 body] [|] | [|]]; cbn [pds0 map to_pd counted] in *; rewrite ?IH, ?Nat.sub_0_r; reflexivity.
+  induction qs as [|q r IH]; [reflexivity|]. destruct q as [[|] qi [|c0 body] [|] | [|] |]; cbn [pds0 map to_pd counted] in *; rewrite ?IH, ?Nat.sub_0_r; reflexivity.
 Qed.
 
 Lemma seg_in s e v b : seg s e v -> In b v -> In b bs.
@@ -1419,21 +1671,23 @@ Qed.
 
 Lemma pds_ok_body ds : forall ls l own body lf, pds_ok ls ds -> In (PdText l own body lf) ds -> no_lf body.
 Proof.
-  induction ds as [|d r IH]; intros ls l own body lf H Hin; [destruct Hin|]. destruct d as [l0 o0 b0 f0 | l0]; cbn [pds_ok] in H.
+  induction ds as [|d r IH]; intros ls l own body lf H Hin; [destruct Hin|]. destruct d as [l0 o0 b0 f0 | l0 |]; cbn [pds_ok] in H.
   - destruct H as (_ & Hb & _ & _ & Hr). destruct Hin as [E | Hin]; [injection E as -> -> -> ->; exact Hb | apply (IH _ _ _ _ _ Hr Hin)].
+  - destruct H as [_ Hr]. destruct Hin as [E | Hin]; [discriminate E | apply (IH _ _ _ _ _ Hr Hin)].
   - destruct H as [_ Hr]. destruct Hin as [E | Hin]; [discriminate E | apply (IH _ _ _ _ _ Hr Hin)].
 Qed.
 
 (* with no counted line every text at a line start is a blank line (no indentation kept) *)
 Lemma fits_none qs : forall ls, pds_ok ls (pds0 qs) -> counted (pds0 qs) = [] -> Forall (q_fits None) qs.
 Proof.
-  induction qs as [|q r IH]; intros ls H Hc; [constructor|]. destruct q as [l qi body lf | l]; cbn [pds0 map to_pd pds_ok] in H.
+  induction qs as [|q r IH]; intros ls H Hc; [constructor|]. destruct q as [l qi body lf | l |]; cbn [pds0 map to_pd pds_ok] in H.
   - destruct H as (-> & _ & Hcase & _ & Hr). constructor.
     + destruct ls; cbn [q_fits]; [|exact Logic.I]. intros _. rewrite Nat.sub_0_r in *.
       destruct body as [|c0 b0]; [|cbn [pds0 map to_pd counted] in Hc; discriminate Hc].
       destruct Hcase as [[_ H0] | ->]; [exact H0 | cbn [pds0 map to_pd counted] in Hc; discriminate Hc].
     + apply (IH lf Hr). cbn [pds0 map to_pd] in Hc. destruct ls, body, lf; cbn [counted] in Hc; try discriminate Hc; exact Hc.
   - destruct H as [-> Hr]. constructor; [exact Logic.I|]. apply (IH false Hr). cbn [pds0 map to_pd] in Hc. destruct ls; cbn [counted] in Hc; [discriminate Hc | exact Hc].
+  - destruct H as [-> Hr]. constructor; [exact Logic.I|]. apply (IH true Hr). exact Hc.
 Qed.
 
 
@@ -1445,31 +1699,32 @@ Lemma Forall2_len {A B} (R : A -> B -> Prop) l l' : Forall2 R l l' -> length l =
 Proof. induction 1; [reflexivity | cbn [length]; congruence]. Qed.
 Lemma pds_ok_end X : forall ls Y, pds_ok ls (X ++ Y) -> pds_ok (end_ls ls X) Y.
 Proof.
-  induction X as [|x X IH]; intros ls Y H; [exact H|]. destruct x as [l own body lf | l]; cbn [app pds_ok end_ls] in *.
+  induction X as [|x X IH]; intros ls Y H; [exact H|]. destruct x as [l own body lf | l |]; cbn [app pds_ok end_ls] in *.
   - destruct H as (_ & _ & _ & _ & Hr). apply (IH lf Y Hr).
   - destruct H as [_ Hr]. apply (IH false Y Hr).
+  - destruct H as [_ Hr]. apply (IH true Y Hr).
 Qed.
 Lemma last_app_ne' {A} (a b : list A) d : b <> [] -> last (a ++ b) d = last b d.
 Proof.
   intros Hb. induction a as [|x a IH]; [reflexivity|]. cbn [app]. rewrite <- IH.
   destruct (a ++ b) eqn:E; [|reflexivity]. destruct a; [cbn in E; congruence | discriminate].
 Qed.
-Lemma nocr_at_in b : In b bs -> N.eqb b 13 = false.
-Proof. intros H. rewrite forallb_forall in Hnocr. apply negb_true_iff, Hnocr, H. Qed.
 
 (* trailing blank pieces are not counted *)
 Lemma blank_uncounted B : forall ls, pds_ok ls (pds0 B) -> Forall (fun q => q_nonblank q = false) B ->
   match last B (QPlace false) with QText true _ [] false => False | _ => True end -> counted (pds0 B) = [].
 Proof.
   induction B as [|q r IH]; intros ls H Hb Hlast; [reflexivity|]. inversion Hb as [|? ? Hq Hr]; subst.
-  destruct q as [l qi body lf | l]; [|discriminate Hq]. cbn [pds0 map to_pd pds_ok] in H. destruct H as (-> & _ & Hcase & Hnext & Hok).
   assert (Hlast' : match last r (QPlace false) with QText true _ [] false => False | _ => True end).
   { destruct r as [|q2 r2]; [exact Logic.I | exact Hlast]. }
+  destruct q as [l qi body lf | l |]; [|discriminate Hq|].
+  2:{ cbn [pds0 map to_pd pds_ok counted] in *. destruct H as [_ Hok]. apply (IH true Hok Hr Hlast'). }
+  cbn [pds0 map to_pd pds_ok] in H. destruct H as (-> & _ & Hcase & Hnext & Hok).
   cbn [pds0 map to_pd]. destruct ls.
   - destruct body as [|c0 b0].
     + destruct lf; cbn [counted]; [apply (IH true Hok Hr Hlast')|].
       (* an indentation piece: a placeable would follow, or it is the last piece *)
-      exfalso. destruct r as [|q2 r2]; [exact Hlast|]. specialize (Hnext eq_refl). destruct q2 as [? ? ? ?|?]; cbn [pds0 map to_pd] in Hnext; [destruct Hnext|].
+      exfalso. destruct r as [|q2 r2]; [exact Hlast|]. specialize (Hnext eq_refl). destruct q2 as [? ? ? ?|?|]; cbn [pds0 map to_pd] in Hnext; [destruct Hnext | | exact (Hnext eq_refl)].
       inversion Hr as [|? ? Hq2 _]; subst. discriminate Hq2.
     + exfalso. destruct Hcase as [H32 _]. cbn [q_nonblank is_nonblank existsb] in Hq. unfold c_sp in Hq. rewrite H32 in Hq. discriminate Hq.
   - destruct body, lf; cbn [counted]; apply (IH _ Hok Hr Hlast').
@@ -1479,7 +1734,12 @@ Theorem finish_pattern_lines : finish_goal.
 Proof.
   intros block st qs p Hf. unfold finish_pattern. destruct (last_non_blank st) as [i|] eqn:Elnb; [|apply spec_ret; exact Logic.I].
   pose proof (f_lnb _ _ _ Hf) as Hl. rewrite Elnb in Hl. destruct Hl as (q & Hnth & Hnb & Hblank).
+  assert (Hqe : q <> QEol) by (intros ->; discriminate Hnb).
   destruct (nth_error_split qs i Hnth) as (A & B & Eqs & HlenA).
+  assert (Hqcr : match q with QText _ _ body _ => nocr_l body | _ => True end).
+  { pose proof (f_rel _ _ _ Hf) as Hrel. rewrite Eqs in Hrel. apply Forall2_app_inv_r in Hrel as (l1 & l2 & _ & H2 & _).
+    inversion H2 as [|ph ? ? ? Hph _]; subst. destruct q as [l0 qi body lf | l0 |]; [|exact Logic.I | exact Logic.I].
+    destruct ph as [e0 | s0 e0 ind0 role0]; cbn [ph_q] in Hph; [destruct Hph|]. apply Hph. }
   assert (Hsk : skipn (S i) qs = B).
   { rewrite Eqs. replace (S i) with (length (A ++ [q])) by (rewrite app_length; cbn [length]; lia).
     replace (A ++ q :: B) with ((A ++ [q]) ++ B) by (rewrite <- app_assoc; reflexivity). apply skipn_app_len'. }
@@ -1491,24 +1751,20 @@ Proof.
   pose proof (f_ok _ _ _ Hf) as Hok. pose proof (f_ci _ _ _ Hf) as Hci. fold ci in Hci.
   (* the element at lnb is not blank: its trimmed body is not empty *)
   assert (Hqtrim : match q with QText _ _ body _ => trim_end body <> [] /\ no_lf body | _ => True end).
-  { destruct q as [l qi body lf | l]; [|exact Logic.I].
+  { destruct q as [l qi body lf | l |]; [|exact Logic.I | exact Logic.I].
     assert (Hnolf : no_lf body).
     { apply (pds_ok_body (pds0 qs) block l (qi - 0) body lf Hok). rewrite Eqs. unfold pds0. rewrite map_app. apply in_or_app. right. left. reflexivity. }
-    split; [|exact Hnolf]. apply (nonblank_trim body Hnolf); [|exact Hnb].
-    (* the bytes of the body are bytes of the source *)
-    pose proof (f_rel _ _ _ Hf) as Hrel. rewrite Eqs in Hrel. apply Forall2_app_inv_r in Hrel as (l1 & l2 & _ & H2 & _).
-    inversion H2 as [|ph ? ? ? Hph _]; subst. destruct ph as [e0 | s0 e0 ind0 role0]; cbn [ph_q] in Hph; [destruct Hph|].
-    destruct Hph as (_ & Hseg & _). intros b Hb. apply (nocr_at_in b). apply (seg_in _ _ _ b Hseg). apply in_or_app. right. apply in_or_app. left. exact Hb. }
+    split; [|exact Hnolf]. apply (nonblank_trim body Hnolf); [exact Hqcr | exact Hnb]. }
   assert (Hfits : Forall (q_fits ci) (A ++ [q])).
   { destruct ci as [m|] eqn:Eci.
-    - apply Forall_forall. intros x _. destruct x as [[|] ? ? ?|?]; cbn [q_fits]; try exact Logic.I. discriminate.
+    - apply Forall_forall. intros x _. destruct x as [[|] ? ? ?|?|]; cbn [q_fits]; try exact Logic.I. discriminate.
     - cbn [ci_rel] in Hci. pose proof (fits_none qs block Hok Hci) as Hall. rewrite Eqs in Hall.
       replace (A ++ q :: B) with ((A ++ [q]) ++ B) in Hall by (rewrite <- app_assoc; reflexivity). apply Forall_app in Hall as [Hall _]. exact Hall. }
   eapply spec_bind; [apply (st_finish_elements i ci (firstn (S i) (rev (elements st))) (A ++ [q]) 0 p) | intros; exact Logic.I|].
   - rewrite <- Hfn. apply Forall2_firstn, (f_rel _ _ _ Hf).
   - exact Hfits.
   - intros q' Hn _. rewrite Nat.sub_0_r, <- HlenA, nth_error_app2, Nat.sub_diag in Hn by lia. injection Hn as <-.
-    destruct q as [l qi body lf | l]; [apply Hqtrim | exact Logic.I].
+    destruct q as [l qi body lf | l |]; [apply Hqtrim | exact Logic.I | congruence].
   - intros els q1 (Hskel & Hle & Hlast). apply spec_ret. cbn [Nat.add] in Hlast.
     assert (Hlenphs : length (firstn (S i) (rev (elements st))) = S i).
     { pose proof (Forall2_len _ _ _ (Forall2_firstn ph_q (S i) _ _ (f_rel _ _ _ Hf))) as Hl2. rewrite Hl2, Hfn, app_length. cbn [length]. lia. }
@@ -1531,8 +1787,8 @@ Proof.
     assert (HokP : pds_ok block P).
     { unfold P. pose proof (pds_ok_shift c qs block Hok) as Hs. rewrite Eqs, map_app in Hs. cbn [map] in Hs.
       apply (pds_ok_cut _ block (to_pd c q) (map (to_pd c) B) _ Hs).
-      - destruct q; exact Logic.I.
-      - intros ls' Hd. destruct q as [l qi body lf | l]; cbn [to_pd trim_pd pds_ok] in *; [|split; [apply Hd | exact Logic.I]].
+      - destruct q; try exact Logic.I. congruence.
+      - intros ls' Hd. destruct q as [l qi body lf | l |]; cbn [to_pd trim_pd pds_ok] in *; [|split; [apply Hd | exact Logic.I] | congruence].
         destruct Hd as (-> & Hb & Hcase & _ & _). destruct Hqtrim as [Htr Hnolf].
         split; [reflexivity|]. split.
         + destruct (trim_end_prefix body) as [w Ew]. unfold no_lf in *. rewrite Ew, existsb_app in Hb. apply orb_false_elim in Hb as [Hb _]. exact Hb.
@@ -1540,26 +1796,20 @@ Proof.
           destruct ls'.
           * destruct body as [|c0 b0]; [exfalso; apply Htr; reflexivity|].
             destruct (trim_end_head c0 b0) as [w' Ew']; [|rewrite Ew'; exact Hcase].
-            destruct Hcase as (H32 & H10 & _). apply ws_false; [exact H32 | exact H10|].
-            (* not a CR: a byte of the source *)
-            clear - Hf Eqs Hnocr. pose proof (f_rel _ _ _ Hf) as Hrel. rewrite Eqs in Hrel. apply Forall2_app_inv_r in Hrel as (l1 & l2 & _ & H2 & _).
-            inversion H2 as [|ph ? ? ? Hph _]; subst. destruct ph as [e0 | s0 e0 ind0 role0]; cbn [ph_q] in Hph; [destruct Hph|].
-            destruct Hph as (_ & Hseg & _). apply nocr_at_in. apply (seg_in _ _ _ c0 Hseg). apply in_or_app. right. left. reflexivity.
+            destruct Hcase as (H32 & H10 & _). apply ws_false; [exact H32 | exact H10|]. apply Hqcr. left. reflexivity.
           * destruct Hcase as [H0 _]. split; [exact H0 | intros E; destruct (Htr E)]. }
     assert (HneP : P <> []) by (unfold P; intros E; apply app_eq_nil in E as [_ E]; discriminate E).
     assert (HlastP : last_ok P).
-    { unfold last_ok, P. rewrite last_last. destruct q as [l qi body lf | l]; cbn [to_pd trim_pd]; [|exact Logic.I].
+    { unfold last_ok, P. rewrite last_last. destruct q as [l qi body lf | l |]; cbn [to_pd trim_pd]; [|exact Logic.I | congruence].
       destruct Hqtrim as [Htr _]. split; [reflexivity | split; [exact Htr|]]. pose proof (trim_end_last body Htr) as Hw.
       unfold matches_fluent_ws, c_sp in Hw. apply orb_false_elim in Hw as [Hw _]. apply orb_false_elim in Hw as [Hw _]. exact Hw. }
     assert (HfirstP : first_ok block P).
     { pose proof (f_first _ _ _ Hf) as Hfi. rewrite Eqs in Hfi. unfold P. destruct A as [|a A'].
-      - cbn [app map pds0] in *. destruct q as [l qi body lf | l]; cbn [to_pd trim_pd first_ok] in *; [|exact Logic.I].
+      - cbn [app map pds0] in *. destruct q as [l qi body lf | l |]; cbn [to_pd trim_pd first_ok] in *; [|exact Logic.I | congruence].
         destruct Hqtrim as [Htr _]. destruct body as [|c0 b0]; [exfalso; apply Htr; reflexivity|].
         destruct (trim_end_head c0 b0) as [w' Ew']; [|rewrite Ew'; exact Hfi]. destruct Hfi as [H32 H10]. apply ws_false; [exact H32 | exact H10|].
-        clear - Hf Eqs Hnocr. pose proof (f_rel _ _ _ Hf) as Hrel. rewrite Eqs in Hrel. cbn [app] in Hrel.
-        inversion Hrel as [|ph ? ? ? Hph _]; subst. destruct ph as [e0 | s0 e0 ind0 role0]; cbn [ph_q] in Hph; [destruct Hph|].
-        destruct Hph as (_ & Hseg & _). apply nocr_at_in. apply (seg_in _ _ _ c0 Hseg). apply in_or_app. right. left. reflexivity.
-      - cbn [app map pds0] in *. destruct a as [l qi body lf | l]; cbn [to_pd first_ok] in *; exact Hfi. }
+        apply Hqcr. left. reflexivity.
+      - cbn [app map pds0] in *. destruct a as [l qi body lf | l |]; cbn [to_pd first_ok] in *; exact Hfi. }
     assert (HcntP : counted P = [] \/ In 0 (counted P)).
     { (* the counted indentations are those of the whole list, shifted by the common indentation *)
       assert (Ecnt : counted (pds0 qs) = counted (pds0 (A ++ [q]))).
@@ -1573,7 +1823,7 @@ Proof.
           rewrite last_app_ne' in Hni by discriminate. exact Hni. }
       assert (EcP : counted P = map (fun x => x - c) (counted (pds0 (A ++ [q])))).
       { unfold P. rewrite <- counted_shift, map_app, !counted_app. f_equal. cbn [map].
-        destruct q as [[|] qi body lf | [|]]; cbn [to_pd trim_pd counted]; try reflexivity.
+        destruct q as [[|] qi body lf | [|] |]; cbn [to_pd trim_pd counted]; try reflexivity.
         destruct Hqtrim as [Htr _]. destruct body as [|c0 b0]; [exfalso; apply Htr; reflexivity|].
         destruct (trim_end (c0 :: b0)) as [|t0 t1] eqn:Et; [congruence|]. destruct lf; reflexivity. }
       rewrite EcP, <- Ecnt. unfold c. destruct ci as [m|]; cbn [ci_rel cnum] in *.
@@ -1675,12 +1925,16 @@ Proof. unfold parse_m. skipn u q. apply sn_parse_loop. constructor. Qed.
 
 End Knot.
 
-(* every pattern of a parser output, joined, satisfies the line rules of the grammar, if the source has no CR *)
-Definition nocr (bs : bytes) : bool := forallb (fun b => negb (N.eqb b 13)) bs.
-
-Theorem parse_lines bs t errs : nocr bs = true -> parse bs = Done (t, errs) -> Forall ln_entry t.
+(* every pattern of a parser output, joined, satisfies the line rules of the grammar, if every CR of the source is
+   followed by LF (CR LF line ends; a source without CR is the special case) *)
+Theorem parse_lines_crlf bs t errs : no_lone_cr bs = true -> parse bs = Done (t, errs) -> Forall ln_entry t.
 Proof.
   unfold parse. intros Hn H. pose proof (parse_m_lines bs Hn (fuel_for bs)) as Hs. unfold spec in Hs.
   destruct (parse_m bs (fuel_for bs) 0) as [[t' e'] q | e q | m |]; cbn [to_outcome] in H; try discriminate H.
   injection H as -> ->. exact Hs.
 Qed.
+
+Definition nocr (bs : bytes) : bool := forallb (fun b => negb (N.eqb b 13)) bs.
+
+Theorem parse_lines bs t errs : nocr bs = true -> parse bs = Done (t, errs) -> Forall ln_entry t.
+Proof. intros Hn. apply parse_lines_crlf, nocr_no_lone, Hn. Qed.
